@@ -1,6 +1,8 @@
 import TF.Proofs.Codec
 import TF.Proofs.GenBridgeCodec
 import TF.Proofs.GenBridgeCodecGeneric
+import TF.Proofs.GenBridgeCodecTuple
+import TF.Proofs.GenBridgeCodecEnc
 /-!
 # C03 — BFieldCodec: round trip, unique encoding, static length, documented layout
 
@@ -374,5 +376,341 @@ theorem gen_combinators_roundtrip_transfer {ε α : Type} (ty : Ty) (G : List Na
     encode ty (toVal a) = vals r :=
   encode_decode ty (vals r) (toVal a) (item_ok h r hw a hg)
 example : Loops.codec_phantom_decode [] = .ok () := rfl
+
+end TF.C03
+
+/-! ## regenerated-from-source bridge: the encoders of `Vec` / `[T; N]` / `Option` / `Polynomial` and the tuples 2..12 (P07)
+
+The remaining regenerated generic codec functions of `TF/Gen/CodecGeneric.lean` are bridged to the constructor cases of the hand
+model, with the component codecs as hypotheses (decoders: `Item T_decode toVal (decode t)`; encoders:
+`∀ x, vals (enc x) = encode t (toVal x)`), in the style of `gen_composite_codecs_eq_model`.  Lengths that the code converts with
+`usize -> BFieldElement` carry the hypothesis `< P` (see the assumptions in tools/props/C03.json: the model emits them unreduced).
+
+Tuples: every arity of `impl_bfield_codec_for_tuple!` expands to the same per-component code applied to the type parameters from
+the last to the first.  The regenerated `codec_tupleN_decode` / `_encode` are *definitionally* (`rfl`) the iterated component step
+`compStep` / `pushComp` (`TF/Proofs/GenBridgeCodecTuple.lean`: `tupleN_decode_eq`, `tupleN_encode_eq`), and **one** lemma about the
+step (`compStep_chain`: the step is `decodeItem` of the model, error for error, panic for panic; `pushComp_vals`: the step is
+`prefixed`) gives all arities; the statements for the arities 2..12 below are the instances of that schema (no arity is proved
+by a separate argument).  Non-vacuity: each statement is instantiated with `PhantomData` components. -/
+namespace TF.C03
+open TF.Codec TF.Gen TF.GenBridge.Codec TF.GenBridge.CodecG TF.RustStd
+
+/-- **encoders of `Vec<T>`, `[T; N]`, `Option<T>`**: the regenerated code is the `vec` / `array` / `option` case of the hand
+    model's `encode` whenever the item encoder is the model's -/
+theorem gen_composite_encoders_eq_model {α : Type} (t : Ty) (n : Nat) (enc : α → List Nat) (toVal : α → Val)
+    (he : ∀ x, vals (enc x) = encode t (toVal x)) (xs : List α) (o : Option α) (hn : xs.length < TF.BF.Pn)
+    (hl : ∀ x ∈ xs, (enc x).length < TF.BF.Pn) :
+    vals (Loops.codec_vec_encode (staticLength t) enc xs) = encode (.vec t) (.list (xs.map toVal)) ∧
+    vals (Loops.codec_array_encode n (staticLength t) enc xs) = encode (.array n t) (.list (xs.map toVal)) ∧
+    vals (Loops.codec_option_encode enc o) = encode (.option t) (.opt (o.map toVal)) :=
+  ⟨gen_vec_encode t enc toVal he xs hn hl, gen_array_encode n t enc toVal he xs hl, gen_option_encode t enc toVal he o⟩
+example : vals (Loops.codec_vec_encode (staticLength .phantom) Loops.codec_phantom_encode [(), ()]) =
+    encode (.vec .phantom) (.list [Val.unit, Val.unit]) :=
+  (gen_composite_encoders_eq_model .phantom 2 Loops.codec_phantom_encode (fun _ => Val.unit) (fun _ => rfl) [(), ()] none
+    (by decide) (fun _ _ => by show 0 < TF.BF.Pn; decide)).1
+
+/-- **`Polynomial<T>::encode`** (and `Polynomial::coefficients()`: `rposition` of the last non-zero coefficient): the
+    regenerated code is the `poly` case of the hand model's `encode` (the *normalised* coefficients as a `Vec`, preceded by the
+    length of that encoding) whenever the coefficient encoder and `is_zero` are the model's -/
+theorem gen_poly_encoder_eq_model {α : Type} (t : Ty) (enc : α → List Nat) (isz : α → Bool) (toVal : α → Val)
+    (he : ∀ x, vals (enc x) = encode t (toVal x)) (hz : ∀ a, isz a = valIsZero (toVal a)) (cs : List α)
+    (hn : (Loops.codec_poly_coefficients isz cs).length < TF.BF.Pn)
+    (hl : ∀ x ∈ Loops.codec_poly_coefficients isz cs, (enc x).length < TF.BF.Pn)
+    (hlen : (Loops.codec_vec_encode (staticLength t) enc (Loops.codec_poly_coefficients isz cs)).length < TF.BF.Pn) :
+    (Loops.codec_poly_coefficients isz cs).map toVal = normalize (cs.map toVal) ∧
+    vals (Loops.codec_poly_encode (staticLength t) enc isz cs) = encode (.poly t) (.list (cs.map toVal)) :=
+  ⟨poly_coefficients_map toVal isz hz cs, gen_poly_encode t enc isz toVal he hz cs hn hl hlen⟩
+example : (Loops.codec_poly_coefficients (fun x : Nat => x == 0) [1, 0, 2, 0, 0]).map Val.num =
+    normalize ([1, 0, 2, 0, 0].map Val.num) :=
+  poly_coefficients_map Val.num (fun x => x == 0) (fun _ => rfl) _
+
+/-- **2-tuples**: the regenerated `decode` / `static_length` of `impl_bfield_codec_for_tuple!(A, B)` are the `tuple` case of the
+    hand model (components read from the last to the first, `decodeItem` each, nothing may be left) whenever the component
+    decoders are the model's -/
+theorem gen_tuple2_decode_eq_model {A A_Error B B_Error : Type} (tA : Ty) (tB : Ty)
+    (A_dec : List Nat → Res A_Error A) (A_into : A_Error → DynErr) (A_toVal : A → Val) (B_dec : List Nat → Res B_Error B) (B_into : B_Error → DynErr) (B_toVal : B → Val)
+    (hA : Item A_dec A_toVal (decode tA)) (hB : Item B_dec B_toVal (decode tB)) :
+    Item (Loops.codec_tuple2_decode (staticLength tA) A_dec A_into (staticLength tB) B_dec B_into)
+      (fun p => Val.list [A_toVal p.1, B_toVal p.2]) (decode (.tuple [tA, tB])) ∧
+    Loops.codec_tuple2_static_length (staticLength tA) (staticLength tB) = staticLength (.tuple [tA, tB]) :=
+  ⟨tuple2_item tA tB A_dec A_into A_toVal B_dec B_into B_toVal hA hB, tuple2_static_length tA tB⟩
+example : Loops.codec_tuple2_static_length (staticLength .phantom) (staticLength .phantom) = staticLength (.tuple [.phantom, .phantom]) :=
+  (gen_tuple2_decode_eq_model .phantom .phantom Loops.codec_phantom_decode (fun e => ⟨e⟩) (fun _ => Val.unit) Loops.codec_phantom_decode (fun e => ⟨e⟩) (fun _ => Val.unit) phantom_item phantom_item).2
+
+/-- regenerated `encode` of the 2-tuple = the `tuple` case of the hand model's `encode` (reverse declaration order, a component
+    is prefixed by its length iff its `static_length()` is `None`) whenever the component encoders are the model's -/
+theorem gen_tuple2_encode_eq_model {A B : Type} (tA : Ty) (tB : Ty) (A_enc : A → List Nat) (A_toVal : A → Val) (B_enc : B → List Nat) (B_toVal : B → Val)
+    (heA : ∀ x, vals (A_enc x) = encode tA (A_toVal x)) (heB : ∀ x, vals (B_enc x) = encode tB (B_toVal x))
+    (self : (A × B)) (hlA : (A_enc self.1).length < TF.BF.Pn) (hlB : (B_enc self.2).length < TF.BF.Pn) :
+    vals (Loops.codec_tuple2_encode (staticLength tA) A_enc (staticLength tB) B_enc self) =
+      encode (.tuple [tA, tB]) (.list [A_toVal self.1, B_toVal self.2]) :=
+  tuple2_encode tA tB A_enc A_toVal B_enc B_toVal heA heB self hlA hlB
+example : vals (Loops.codec_tuple2_encode (staticLength .phantom) Loops.codec_phantom_encode (staticLength .phantom) Loops.codec_phantom_encode ((), ())) =
+    encode (.tuple [.phantom, .phantom]) (.list [Val.unit, Val.unit]) :=
+  gen_tuple2_encode_eq_model .phantom .phantom Loops.codec_phantom_encode (fun _ => Val.unit) Loops.codec_phantom_encode (fun _ => Val.unit) (fun _ => rfl) (fun _ => rfl) ((), ()) (by decide) (by decide)
+
+/-- **3-tuples**: the regenerated `decode` / `static_length` of `impl_bfield_codec_for_tuple!(A, B, C)` are the `tuple` case of the
+    hand model (components read from the last to the first, `decodeItem` each, nothing may be left) whenever the component
+    decoders are the model's -/
+theorem gen_tuple3_decode_eq_model {A A_Error B B_Error C C_Error : Type} (tA : Ty) (tB : Ty) (tC : Ty)
+    (A_dec : List Nat → Res A_Error A) (A_into : A_Error → DynErr) (A_toVal : A → Val) (B_dec : List Nat → Res B_Error B) (B_into : B_Error → DynErr) (B_toVal : B → Val) (C_dec : List Nat → Res C_Error C) (C_into : C_Error → DynErr) (C_toVal : C → Val)
+    (hA : Item A_dec A_toVal (decode tA)) (hB : Item B_dec B_toVal (decode tB)) (hC : Item C_dec C_toVal (decode tC)) :
+    Item (Loops.codec_tuple3_decode (staticLength tA) A_dec A_into (staticLength tB) B_dec B_into (staticLength tC) C_dec C_into)
+      (fun p => Val.list [A_toVal p.1, B_toVal p.2.1, C_toVal p.2.2]) (decode (.tuple [tA, tB, tC])) ∧
+    Loops.codec_tuple3_static_length (staticLength tA) (staticLength tB) (staticLength tC) = staticLength (.tuple [tA, tB, tC]) :=
+  ⟨tuple3_item tA tB tC A_dec A_into A_toVal B_dec B_into B_toVal C_dec C_into C_toVal hA hB hC, tuple3_static_length tA tB tC⟩
+example : Loops.codec_tuple3_static_length (staticLength .phantom) (staticLength .phantom) (staticLength .phantom) = staticLength (.tuple [.phantom, .phantom, .phantom]) :=
+  (gen_tuple3_decode_eq_model .phantom .phantom .phantom Loops.codec_phantom_decode (fun e => ⟨e⟩) (fun _ => Val.unit) Loops.codec_phantom_decode (fun e => ⟨e⟩) (fun _ => Val.unit) Loops.codec_phantom_decode (fun e => ⟨e⟩) (fun _ => Val.unit) phantom_item phantom_item phantom_item).2
+
+/-- regenerated `encode` of the 3-tuple = the `tuple` case of the hand model's `encode` (reverse declaration order, a component
+    is prefixed by its length iff its `static_length()` is `None`) whenever the component encoders are the model's -/
+theorem gen_tuple3_encode_eq_model {A B C : Type} (tA : Ty) (tB : Ty) (tC : Ty) (A_enc : A → List Nat) (A_toVal : A → Val) (B_enc : B → List Nat) (B_toVal : B → Val) (C_enc : C → List Nat) (C_toVal : C → Val)
+    (heA : ∀ x, vals (A_enc x) = encode tA (A_toVal x)) (heB : ∀ x, vals (B_enc x) = encode tB (B_toVal x)) (heC : ∀ x, vals (C_enc x) = encode tC (C_toVal x))
+    (self : (A × B × C)) (hlA : (A_enc self.1).length < TF.BF.Pn) (hlB : (B_enc self.2.1).length < TF.BF.Pn) (hlC : (C_enc self.2.2).length < TF.BF.Pn) :
+    vals (Loops.codec_tuple3_encode (staticLength tA) A_enc (staticLength tB) B_enc (staticLength tC) C_enc self) =
+      encode (.tuple [tA, tB, tC]) (.list [A_toVal self.1, B_toVal self.2.1, C_toVal self.2.2]) :=
+  tuple3_encode tA tB tC A_enc A_toVal B_enc B_toVal C_enc C_toVal heA heB heC self hlA hlB hlC
+example : vals (Loops.codec_tuple3_encode (staticLength .phantom) Loops.codec_phantom_encode (staticLength .phantom) Loops.codec_phantom_encode (staticLength .phantom) Loops.codec_phantom_encode ((), (), ())) =
+    encode (.tuple [.phantom, .phantom, .phantom]) (.list [Val.unit, Val.unit, Val.unit]) :=
+  gen_tuple3_encode_eq_model .phantom .phantom .phantom Loops.codec_phantom_encode (fun _ => Val.unit) Loops.codec_phantom_encode (fun _ => Val.unit) Loops.codec_phantom_encode (fun _ => Val.unit) (fun _ => rfl) (fun _ => rfl) (fun _ => rfl) ((), (), ()) (by decide) (by decide) (by decide)
+
+/-- **4-tuples**: the regenerated `decode` / `static_length` of `impl_bfield_codec_for_tuple!(A, B, C, D)` are the `tuple` case of the
+    hand model (components read from the last to the first, `decodeItem` each, nothing may be left) whenever the component
+    decoders are the model's -/
+theorem gen_tuple4_decode_eq_model {A A_Error B B_Error C C_Error D D_Error : Type} (tA : Ty) (tB : Ty) (tC : Ty) (tD : Ty)
+    (A_dec : List Nat → Res A_Error A) (A_into : A_Error → DynErr) (A_toVal : A → Val) (B_dec : List Nat → Res B_Error B) (B_into : B_Error → DynErr) (B_toVal : B → Val) (C_dec : List Nat → Res C_Error C) (C_into : C_Error → DynErr) (C_toVal : C → Val) (D_dec : List Nat → Res D_Error D) (D_into : D_Error → DynErr) (D_toVal : D → Val)
+    (hA : Item A_dec A_toVal (decode tA)) (hB : Item B_dec B_toVal (decode tB)) (hC : Item C_dec C_toVal (decode tC)) (hD : Item D_dec D_toVal (decode tD)) :
+    Item (Loops.codec_tuple4_decode (staticLength tA) A_dec A_into (staticLength tB) B_dec B_into (staticLength tC) C_dec C_into (staticLength tD) D_dec D_into)
+      (fun p => Val.list [A_toVal p.1, B_toVal p.2.1, C_toVal p.2.2.1, D_toVal p.2.2.2]) (decode (.tuple [tA, tB, tC, tD])) ∧
+    Loops.codec_tuple4_static_length (staticLength tA) (staticLength tB) (staticLength tC) (staticLength tD) = staticLength (.tuple [tA, tB, tC, tD]) :=
+  ⟨tuple4_item tA tB tC tD A_dec A_into A_toVal B_dec B_into B_toVal C_dec C_into C_toVal D_dec D_into D_toVal hA hB hC hD, tuple4_static_length tA tB tC tD⟩
+example : Loops.codec_tuple4_static_length (staticLength .phantom) (staticLength .phantom) (staticLength .phantom) (staticLength .phantom) = staticLength (.tuple [.phantom, .phantom, .phantom, .phantom]) :=
+  (gen_tuple4_decode_eq_model .phantom .phantom .phantom .phantom Loops.codec_phantom_decode (fun e => ⟨e⟩) (fun _ => Val.unit) Loops.codec_phantom_decode (fun e => ⟨e⟩) (fun _ => Val.unit) Loops.codec_phantom_decode (fun e => ⟨e⟩) (fun _ => Val.unit) Loops.codec_phantom_decode (fun e => ⟨e⟩) (fun _ => Val.unit) phantom_item phantom_item phantom_item phantom_item).2
+
+/-- regenerated `encode` of the 4-tuple = the `tuple` case of the hand model's `encode` (reverse declaration order, a component
+    is prefixed by its length iff its `static_length()` is `None`) whenever the component encoders are the model's -/
+theorem gen_tuple4_encode_eq_model {A B C D : Type} (tA : Ty) (tB : Ty) (tC : Ty) (tD : Ty) (A_enc : A → List Nat) (A_toVal : A → Val) (B_enc : B → List Nat) (B_toVal : B → Val) (C_enc : C → List Nat) (C_toVal : C → Val) (D_enc : D → List Nat) (D_toVal : D → Val)
+    (heA : ∀ x, vals (A_enc x) = encode tA (A_toVal x)) (heB : ∀ x, vals (B_enc x) = encode tB (B_toVal x)) (heC : ∀ x, vals (C_enc x) = encode tC (C_toVal x)) (heD : ∀ x, vals (D_enc x) = encode tD (D_toVal x))
+    (self : (A × B × C × D)) (hlA : (A_enc self.1).length < TF.BF.Pn) (hlB : (B_enc self.2.1).length < TF.BF.Pn) (hlC : (C_enc self.2.2.1).length < TF.BF.Pn) (hlD : (D_enc self.2.2.2).length < TF.BF.Pn) :
+    vals (Loops.codec_tuple4_encode (staticLength tA) A_enc (staticLength tB) B_enc (staticLength tC) C_enc (staticLength tD) D_enc self) =
+      encode (.tuple [tA, tB, tC, tD]) (.list [A_toVal self.1, B_toVal self.2.1, C_toVal self.2.2.1, D_toVal self.2.2.2]) :=
+  tuple4_encode tA tB tC tD A_enc A_toVal B_enc B_toVal C_enc C_toVal D_enc D_toVal heA heB heC heD self hlA hlB hlC hlD
+example : vals (Loops.codec_tuple4_encode (staticLength .phantom) Loops.codec_phantom_encode (staticLength .phantom) Loops.codec_phantom_encode (staticLength .phantom) Loops.codec_phantom_encode (staticLength .phantom) Loops.codec_phantom_encode ((), (), (), ())) =
+    encode (.tuple [.phantom, .phantom, .phantom, .phantom]) (.list [Val.unit, Val.unit, Val.unit, Val.unit]) :=
+  gen_tuple4_encode_eq_model .phantom .phantom .phantom .phantom Loops.codec_phantom_encode (fun _ => Val.unit) Loops.codec_phantom_encode (fun _ => Val.unit) Loops.codec_phantom_encode (fun _ => Val.unit) Loops.codec_phantom_encode (fun _ => Val.unit) (fun _ => rfl) (fun _ => rfl) (fun _ => rfl) (fun _ => rfl) ((), (), (), ()) (by decide) (by decide) (by decide) (by decide)
+
+/-- **5-tuples**: the regenerated `decode` / `static_length` of `impl_bfield_codec_for_tuple!(A, B, C, D, E)` are the `tuple` case of the
+    hand model (components read from the last to the first, `decodeItem` each, nothing may be left) whenever the component
+    decoders are the model's -/
+theorem gen_tuple5_decode_eq_model {A A_Error B B_Error C C_Error D D_Error E E_Error : Type} (tA : Ty) (tB : Ty) (tC : Ty) (tD : Ty) (tE : Ty)
+    (A_dec : List Nat → Res A_Error A) (A_into : A_Error → DynErr) (A_toVal : A → Val) (B_dec : List Nat → Res B_Error B) (B_into : B_Error → DynErr) (B_toVal : B → Val) (C_dec : List Nat → Res C_Error C) (C_into : C_Error → DynErr) (C_toVal : C → Val) (D_dec : List Nat → Res D_Error D) (D_into : D_Error → DynErr) (D_toVal : D → Val) (E_dec : List Nat → Res E_Error E) (E_into : E_Error → DynErr) (E_toVal : E → Val)
+    (hA : Item A_dec A_toVal (decode tA)) (hB : Item B_dec B_toVal (decode tB)) (hC : Item C_dec C_toVal (decode tC)) (hD : Item D_dec D_toVal (decode tD)) (hE : Item E_dec E_toVal (decode tE)) :
+    Item (Loops.codec_tuple5_decode (staticLength tA) A_dec A_into (staticLength tB) B_dec B_into (staticLength tC) C_dec C_into (staticLength tD) D_dec D_into (staticLength tE) E_dec E_into)
+      (fun p => Val.list [A_toVal p.1, B_toVal p.2.1, C_toVal p.2.2.1, D_toVal p.2.2.2.1, E_toVal p.2.2.2.2]) (decode (.tuple [tA, tB, tC, tD, tE])) ∧
+    Loops.codec_tuple5_static_length (staticLength tA) (staticLength tB) (staticLength tC) (staticLength tD) (staticLength tE) = staticLength (.tuple [tA, tB, tC, tD, tE]) :=
+  ⟨tuple5_item tA tB tC tD tE A_dec A_into A_toVal B_dec B_into B_toVal C_dec C_into C_toVal D_dec D_into D_toVal E_dec E_into E_toVal hA hB hC hD hE, tuple5_static_length tA tB tC tD tE⟩
+example : Loops.codec_tuple5_static_length (staticLength .phantom) (staticLength .phantom) (staticLength .phantom) (staticLength .phantom) (staticLength .phantom) = staticLength (.tuple [.phantom, .phantom, .phantom, .phantom, .phantom]) :=
+  (gen_tuple5_decode_eq_model .phantom .phantom .phantom .phantom .phantom Loops.codec_phantom_decode (fun e => ⟨e⟩) (fun _ => Val.unit) Loops.codec_phantom_decode (fun e => ⟨e⟩) (fun _ => Val.unit) Loops.codec_phantom_decode (fun e => ⟨e⟩) (fun _ => Val.unit) Loops.codec_phantom_decode (fun e => ⟨e⟩) (fun _ => Val.unit) Loops.codec_phantom_decode (fun e => ⟨e⟩) (fun _ => Val.unit) phantom_item phantom_item phantom_item phantom_item phantom_item).2
+
+/-- regenerated `encode` of the 5-tuple = the `tuple` case of the hand model's `encode` (reverse declaration order, a component
+    is prefixed by its length iff its `static_length()` is `None`) whenever the component encoders are the model's -/
+theorem gen_tuple5_encode_eq_model {A B C D E : Type} (tA : Ty) (tB : Ty) (tC : Ty) (tD : Ty) (tE : Ty) (A_enc : A → List Nat) (A_toVal : A → Val) (B_enc : B → List Nat) (B_toVal : B → Val) (C_enc : C → List Nat) (C_toVal : C → Val) (D_enc : D → List Nat) (D_toVal : D → Val) (E_enc : E → List Nat) (E_toVal : E → Val)
+    (heA : ∀ x, vals (A_enc x) = encode tA (A_toVal x)) (heB : ∀ x, vals (B_enc x) = encode tB (B_toVal x)) (heC : ∀ x, vals (C_enc x) = encode tC (C_toVal x)) (heD : ∀ x, vals (D_enc x) = encode tD (D_toVal x)) (heE : ∀ x, vals (E_enc x) = encode tE (E_toVal x))
+    (self : (A × B × C × D × E)) (hlA : (A_enc self.1).length < TF.BF.Pn) (hlB : (B_enc self.2.1).length < TF.BF.Pn) (hlC : (C_enc self.2.2.1).length < TF.BF.Pn) (hlD : (D_enc self.2.2.2.1).length < TF.BF.Pn) (hlE : (E_enc self.2.2.2.2).length < TF.BF.Pn) :
+    vals (Loops.codec_tuple5_encode (staticLength tA) A_enc (staticLength tB) B_enc (staticLength tC) C_enc (staticLength tD) D_enc (staticLength tE) E_enc self) =
+      encode (.tuple [tA, tB, tC, tD, tE]) (.list [A_toVal self.1, B_toVal self.2.1, C_toVal self.2.2.1, D_toVal self.2.2.2.1, E_toVal self.2.2.2.2]) :=
+  tuple5_encode tA tB tC tD tE A_enc A_toVal B_enc B_toVal C_enc C_toVal D_enc D_toVal E_enc E_toVal heA heB heC heD heE self hlA hlB hlC hlD hlE
+example : vals (Loops.codec_tuple5_encode (staticLength .phantom) Loops.codec_phantom_encode (staticLength .phantom) Loops.codec_phantom_encode (staticLength .phantom) Loops.codec_phantom_encode (staticLength .phantom) Loops.codec_phantom_encode (staticLength .phantom) Loops.codec_phantom_encode ((), (), (), (), ())) =
+    encode (.tuple [.phantom, .phantom, .phantom, .phantom, .phantom]) (.list [Val.unit, Val.unit, Val.unit, Val.unit, Val.unit]) :=
+  gen_tuple5_encode_eq_model .phantom .phantom .phantom .phantom .phantom Loops.codec_phantom_encode (fun _ => Val.unit) Loops.codec_phantom_encode (fun _ => Val.unit) Loops.codec_phantom_encode (fun _ => Val.unit) Loops.codec_phantom_encode (fun _ => Val.unit) Loops.codec_phantom_encode (fun _ => Val.unit) (fun _ => rfl) (fun _ => rfl) (fun _ => rfl) (fun _ => rfl) (fun _ => rfl) ((), (), (), (), ()) (by decide) (by decide) (by decide) (by decide) (by decide)
+
+/-- **6-tuples**: the regenerated `decode` / `static_length` of `impl_bfield_codec_for_tuple!(A, B, C, D, E, F)` are the `tuple` case of the
+    hand model (components read from the last to the first, `decodeItem` each, nothing may be left) whenever the component
+    decoders are the model's -/
+theorem gen_tuple6_decode_eq_model {A A_Error B B_Error C C_Error D D_Error E E_Error F F_Error : Type} (tA : Ty) (tB : Ty) (tC : Ty) (tD : Ty) (tE : Ty) (tF : Ty)
+    (A_dec : List Nat → Res A_Error A) (A_into : A_Error → DynErr) (A_toVal : A → Val) (B_dec : List Nat → Res B_Error B) (B_into : B_Error → DynErr) (B_toVal : B → Val) (C_dec : List Nat → Res C_Error C) (C_into : C_Error → DynErr) (C_toVal : C → Val) (D_dec : List Nat → Res D_Error D) (D_into : D_Error → DynErr) (D_toVal : D → Val) (E_dec : List Nat → Res E_Error E) (E_into : E_Error → DynErr) (E_toVal : E → Val) (F_dec : List Nat → Res F_Error F) (F_into : F_Error → DynErr) (F_toVal : F → Val)
+    (hA : Item A_dec A_toVal (decode tA)) (hB : Item B_dec B_toVal (decode tB)) (hC : Item C_dec C_toVal (decode tC)) (hD : Item D_dec D_toVal (decode tD)) (hE : Item E_dec E_toVal (decode tE)) (hF : Item F_dec F_toVal (decode tF)) :
+    Item (Loops.codec_tuple6_decode (staticLength tA) A_dec A_into (staticLength tB) B_dec B_into (staticLength tC) C_dec C_into (staticLength tD) D_dec D_into (staticLength tE) E_dec E_into (staticLength tF) F_dec F_into)
+      (fun p => Val.list [A_toVal p.1, B_toVal p.2.1, C_toVal p.2.2.1, D_toVal p.2.2.2.1, E_toVal p.2.2.2.2.1, F_toVal p.2.2.2.2.2]) (decode (.tuple [tA, tB, tC, tD, tE, tF])) ∧
+    Loops.codec_tuple6_static_length (staticLength tA) (staticLength tB) (staticLength tC) (staticLength tD) (staticLength tE) (staticLength tF) = staticLength (.tuple [tA, tB, tC, tD, tE, tF]) :=
+  ⟨tuple6_item tA tB tC tD tE tF A_dec A_into A_toVal B_dec B_into B_toVal C_dec C_into C_toVal D_dec D_into D_toVal E_dec E_into E_toVal F_dec F_into F_toVal hA hB hC hD hE hF, tuple6_static_length tA tB tC tD tE tF⟩
+example : Loops.codec_tuple6_static_length (staticLength .phantom) (staticLength .phantom) (staticLength .phantom) (staticLength .phantom) (staticLength .phantom) (staticLength .phantom) = staticLength (.tuple [.phantom, .phantom, .phantom, .phantom, .phantom, .phantom]) :=
+  (gen_tuple6_decode_eq_model .phantom .phantom .phantom .phantom .phantom .phantom Loops.codec_phantom_decode (fun e => ⟨e⟩) (fun _ => Val.unit) Loops.codec_phantom_decode (fun e => ⟨e⟩) (fun _ => Val.unit) Loops.codec_phantom_decode (fun e => ⟨e⟩) (fun _ => Val.unit) Loops.codec_phantom_decode (fun e => ⟨e⟩) (fun _ => Val.unit) Loops.codec_phantom_decode (fun e => ⟨e⟩) (fun _ => Val.unit) Loops.codec_phantom_decode (fun e => ⟨e⟩) (fun _ => Val.unit) phantom_item phantom_item phantom_item phantom_item phantom_item phantom_item).2
+
+/-- regenerated `encode` of the 6-tuple = the `tuple` case of the hand model's `encode` (reverse declaration order, a component
+    is prefixed by its length iff its `static_length()` is `None`) whenever the component encoders are the model's -/
+theorem gen_tuple6_encode_eq_model {A B C D E F : Type} (tA : Ty) (tB : Ty) (tC : Ty) (tD : Ty) (tE : Ty) (tF : Ty) (A_enc : A → List Nat) (A_toVal : A → Val) (B_enc : B → List Nat) (B_toVal : B → Val) (C_enc : C → List Nat) (C_toVal : C → Val) (D_enc : D → List Nat) (D_toVal : D → Val) (E_enc : E → List Nat) (E_toVal : E → Val) (F_enc : F → List Nat) (F_toVal : F → Val)
+    (heA : ∀ x, vals (A_enc x) = encode tA (A_toVal x)) (heB : ∀ x, vals (B_enc x) = encode tB (B_toVal x)) (heC : ∀ x, vals (C_enc x) = encode tC (C_toVal x)) (heD : ∀ x, vals (D_enc x) = encode tD (D_toVal x)) (heE : ∀ x, vals (E_enc x) = encode tE (E_toVal x)) (heF : ∀ x, vals (F_enc x) = encode tF (F_toVal x))
+    (self : (A × B × C × D × E × F)) (hlA : (A_enc self.1).length < TF.BF.Pn) (hlB : (B_enc self.2.1).length < TF.BF.Pn) (hlC : (C_enc self.2.2.1).length < TF.BF.Pn) (hlD : (D_enc self.2.2.2.1).length < TF.BF.Pn) (hlE : (E_enc self.2.2.2.2.1).length < TF.BF.Pn) (hlF : (F_enc self.2.2.2.2.2).length < TF.BF.Pn) :
+    vals (Loops.codec_tuple6_encode (staticLength tA) A_enc (staticLength tB) B_enc (staticLength tC) C_enc (staticLength tD) D_enc (staticLength tE) E_enc (staticLength tF) F_enc self) =
+      encode (.tuple [tA, tB, tC, tD, tE, tF]) (.list [A_toVal self.1, B_toVal self.2.1, C_toVal self.2.2.1, D_toVal self.2.2.2.1, E_toVal self.2.2.2.2.1, F_toVal self.2.2.2.2.2]) :=
+  tuple6_encode tA tB tC tD tE tF A_enc A_toVal B_enc B_toVal C_enc C_toVal D_enc D_toVal E_enc E_toVal F_enc F_toVal heA heB heC heD heE heF self hlA hlB hlC hlD hlE hlF
+example : vals (Loops.codec_tuple6_encode (staticLength .phantom) Loops.codec_phantom_encode (staticLength .phantom) Loops.codec_phantom_encode (staticLength .phantom) Loops.codec_phantom_encode (staticLength .phantom) Loops.codec_phantom_encode (staticLength .phantom) Loops.codec_phantom_encode (staticLength .phantom) Loops.codec_phantom_encode ((), (), (), (), (), ())) =
+    encode (.tuple [.phantom, .phantom, .phantom, .phantom, .phantom, .phantom]) (.list [Val.unit, Val.unit, Val.unit, Val.unit, Val.unit, Val.unit]) :=
+  gen_tuple6_encode_eq_model .phantom .phantom .phantom .phantom .phantom .phantom Loops.codec_phantom_encode (fun _ => Val.unit) Loops.codec_phantom_encode (fun _ => Val.unit) Loops.codec_phantom_encode (fun _ => Val.unit) Loops.codec_phantom_encode (fun _ => Val.unit) Loops.codec_phantom_encode (fun _ => Val.unit) Loops.codec_phantom_encode (fun _ => Val.unit) (fun _ => rfl) (fun _ => rfl) (fun _ => rfl) (fun _ => rfl) (fun _ => rfl) (fun _ => rfl) ((), (), (), (), (), ()) (by decide) (by decide) (by decide) (by decide) (by decide) (by decide)
+
+/-- **7-tuples**: the regenerated `decode` / `static_length` of `impl_bfield_codec_for_tuple!(A, B, C, D, E, F, G)` are the `tuple` case of the
+    hand model (components read from the last to the first, `decodeItem` each, nothing may be left) whenever the component
+    decoders are the model's -/
+theorem gen_tuple7_decode_eq_model {A A_Error B B_Error C C_Error D D_Error E E_Error F F_Error G G_Error : Type} (tA : Ty) (tB : Ty) (tC : Ty) (tD : Ty) (tE : Ty) (tF : Ty) (tG : Ty)
+    (A_dec : List Nat → Res A_Error A) (A_into : A_Error → DynErr) (A_toVal : A → Val) (B_dec : List Nat → Res B_Error B) (B_into : B_Error → DynErr) (B_toVal : B → Val) (C_dec : List Nat → Res C_Error C) (C_into : C_Error → DynErr) (C_toVal : C → Val) (D_dec : List Nat → Res D_Error D) (D_into : D_Error → DynErr) (D_toVal : D → Val) (E_dec : List Nat → Res E_Error E) (E_into : E_Error → DynErr) (E_toVal : E → Val) (F_dec : List Nat → Res F_Error F) (F_into : F_Error → DynErr) (F_toVal : F → Val) (G_dec : List Nat → Res G_Error G) (G_into : G_Error → DynErr) (G_toVal : G → Val)
+    (hA : Item A_dec A_toVal (decode tA)) (hB : Item B_dec B_toVal (decode tB)) (hC : Item C_dec C_toVal (decode tC)) (hD : Item D_dec D_toVal (decode tD)) (hE : Item E_dec E_toVal (decode tE)) (hF : Item F_dec F_toVal (decode tF)) (hG : Item G_dec G_toVal (decode tG)) :
+    Item (Loops.codec_tuple7_decode (staticLength tA) A_dec A_into (staticLength tB) B_dec B_into (staticLength tC) C_dec C_into (staticLength tD) D_dec D_into (staticLength tE) E_dec E_into (staticLength tF) F_dec F_into (staticLength tG) G_dec G_into)
+      (fun p => Val.list [A_toVal p.1, B_toVal p.2.1, C_toVal p.2.2.1, D_toVal p.2.2.2.1, E_toVal p.2.2.2.2.1, F_toVal p.2.2.2.2.2.1, G_toVal p.2.2.2.2.2.2]) (decode (.tuple [tA, tB, tC, tD, tE, tF, tG])) ∧
+    Loops.codec_tuple7_static_length (staticLength tA) (staticLength tB) (staticLength tC) (staticLength tD) (staticLength tE) (staticLength tF) (staticLength tG) = staticLength (.tuple [tA, tB, tC, tD, tE, tF, tG]) :=
+  ⟨tuple7_item tA tB tC tD tE tF tG A_dec A_into A_toVal B_dec B_into B_toVal C_dec C_into C_toVal D_dec D_into D_toVal E_dec E_into E_toVal F_dec F_into F_toVal G_dec G_into G_toVal hA hB hC hD hE hF hG, tuple7_static_length tA tB tC tD tE tF tG⟩
+example : Loops.codec_tuple7_static_length (staticLength .phantom) (staticLength .phantom) (staticLength .phantom) (staticLength .phantom) (staticLength .phantom) (staticLength .phantom) (staticLength .phantom) = staticLength (.tuple [.phantom, .phantom, .phantom, .phantom, .phantom, .phantom, .phantom]) :=
+  (gen_tuple7_decode_eq_model .phantom .phantom .phantom .phantom .phantom .phantom .phantom Loops.codec_phantom_decode (fun e => ⟨e⟩) (fun _ => Val.unit) Loops.codec_phantom_decode (fun e => ⟨e⟩) (fun _ => Val.unit) Loops.codec_phantom_decode (fun e => ⟨e⟩) (fun _ => Val.unit) Loops.codec_phantom_decode (fun e => ⟨e⟩) (fun _ => Val.unit) Loops.codec_phantom_decode (fun e => ⟨e⟩) (fun _ => Val.unit) Loops.codec_phantom_decode (fun e => ⟨e⟩) (fun _ => Val.unit) Loops.codec_phantom_decode (fun e => ⟨e⟩) (fun _ => Val.unit) phantom_item phantom_item phantom_item phantom_item phantom_item phantom_item phantom_item).2
+
+/-- regenerated `encode` of the 7-tuple = the `tuple` case of the hand model's `encode` (reverse declaration order, a component
+    is prefixed by its length iff its `static_length()` is `None`) whenever the component encoders are the model's -/
+theorem gen_tuple7_encode_eq_model {A B C D E F G : Type} (tA : Ty) (tB : Ty) (tC : Ty) (tD : Ty) (tE : Ty) (tF : Ty) (tG : Ty) (A_enc : A → List Nat) (A_toVal : A → Val) (B_enc : B → List Nat) (B_toVal : B → Val) (C_enc : C → List Nat) (C_toVal : C → Val) (D_enc : D → List Nat) (D_toVal : D → Val) (E_enc : E → List Nat) (E_toVal : E → Val) (F_enc : F → List Nat) (F_toVal : F → Val) (G_enc : G → List Nat) (G_toVal : G → Val)
+    (heA : ∀ x, vals (A_enc x) = encode tA (A_toVal x)) (heB : ∀ x, vals (B_enc x) = encode tB (B_toVal x)) (heC : ∀ x, vals (C_enc x) = encode tC (C_toVal x)) (heD : ∀ x, vals (D_enc x) = encode tD (D_toVal x)) (heE : ∀ x, vals (E_enc x) = encode tE (E_toVal x)) (heF : ∀ x, vals (F_enc x) = encode tF (F_toVal x)) (heG : ∀ x, vals (G_enc x) = encode tG (G_toVal x))
+    (self : (A × B × C × D × E × F × G)) (hlA : (A_enc self.1).length < TF.BF.Pn) (hlB : (B_enc self.2.1).length < TF.BF.Pn) (hlC : (C_enc self.2.2.1).length < TF.BF.Pn) (hlD : (D_enc self.2.2.2.1).length < TF.BF.Pn) (hlE : (E_enc self.2.2.2.2.1).length < TF.BF.Pn) (hlF : (F_enc self.2.2.2.2.2.1).length < TF.BF.Pn) (hlG : (G_enc self.2.2.2.2.2.2).length < TF.BF.Pn) :
+    vals (Loops.codec_tuple7_encode (staticLength tA) A_enc (staticLength tB) B_enc (staticLength tC) C_enc (staticLength tD) D_enc (staticLength tE) E_enc (staticLength tF) F_enc (staticLength tG) G_enc self) =
+      encode (.tuple [tA, tB, tC, tD, tE, tF, tG]) (.list [A_toVal self.1, B_toVal self.2.1, C_toVal self.2.2.1, D_toVal self.2.2.2.1, E_toVal self.2.2.2.2.1, F_toVal self.2.2.2.2.2.1, G_toVal self.2.2.2.2.2.2]) :=
+  tuple7_encode tA tB tC tD tE tF tG A_enc A_toVal B_enc B_toVal C_enc C_toVal D_enc D_toVal E_enc E_toVal F_enc F_toVal G_enc G_toVal heA heB heC heD heE heF heG self hlA hlB hlC hlD hlE hlF hlG
+example : vals (Loops.codec_tuple7_encode (staticLength .phantom) Loops.codec_phantom_encode (staticLength .phantom) Loops.codec_phantom_encode (staticLength .phantom) Loops.codec_phantom_encode (staticLength .phantom) Loops.codec_phantom_encode (staticLength .phantom) Loops.codec_phantom_encode (staticLength .phantom) Loops.codec_phantom_encode (staticLength .phantom) Loops.codec_phantom_encode ((), (), (), (), (), (), ())) =
+    encode (.tuple [.phantom, .phantom, .phantom, .phantom, .phantom, .phantom, .phantom]) (.list [Val.unit, Val.unit, Val.unit, Val.unit, Val.unit, Val.unit, Val.unit]) :=
+  gen_tuple7_encode_eq_model .phantom .phantom .phantom .phantom .phantom .phantom .phantom Loops.codec_phantom_encode (fun _ => Val.unit) Loops.codec_phantom_encode (fun _ => Val.unit) Loops.codec_phantom_encode (fun _ => Val.unit) Loops.codec_phantom_encode (fun _ => Val.unit) Loops.codec_phantom_encode (fun _ => Val.unit) Loops.codec_phantom_encode (fun _ => Val.unit) Loops.codec_phantom_encode (fun _ => Val.unit) (fun _ => rfl) (fun _ => rfl) (fun _ => rfl) (fun _ => rfl) (fun _ => rfl) (fun _ => rfl) (fun _ => rfl) ((), (), (), (), (), (), ()) (by decide) (by decide) (by decide) (by decide) (by decide) (by decide) (by decide)
+
+/-- **8-tuples**: the regenerated `decode` / `static_length` of `impl_bfield_codec_for_tuple!(A, B, C, D, E, F, G, H)` are the `tuple` case of the
+    hand model (components read from the last to the first, `decodeItem` each, nothing may be left) whenever the component
+    decoders are the model's -/
+theorem gen_tuple8_decode_eq_model {A A_Error B B_Error C C_Error D D_Error E E_Error F F_Error G G_Error H H_Error : Type} (tA : Ty) (tB : Ty) (tC : Ty) (tD : Ty) (tE : Ty) (tF : Ty) (tG : Ty) (tH : Ty)
+    (A_dec : List Nat → Res A_Error A) (A_into : A_Error → DynErr) (A_toVal : A → Val) (B_dec : List Nat → Res B_Error B) (B_into : B_Error → DynErr) (B_toVal : B → Val) (C_dec : List Nat → Res C_Error C) (C_into : C_Error → DynErr) (C_toVal : C → Val) (D_dec : List Nat → Res D_Error D) (D_into : D_Error → DynErr) (D_toVal : D → Val) (E_dec : List Nat → Res E_Error E) (E_into : E_Error → DynErr) (E_toVal : E → Val) (F_dec : List Nat → Res F_Error F) (F_into : F_Error → DynErr) (F_toVal : F → Val) (G_dec : List Nat → Res G_Error G) (G_into : G_Error → DynErr) (G_toVal : G → Val) (H_dec : List Nat → Res H_Error H) (H_into : H_Error → DynErr) (H_toVal : H → Val)
+    (hA : Item A_dec A_toVal (decode tA)) (hB : Item B_dec B_toVal (decode tB)) (hC : Item C_dec C_toVal (decode tC)) (hD : Item D_dec D_toVal (decode tD)) (hE : Item E_dec E_toVal (decode tE)) (hF : Item F_dec F_toVal (decode tF)) (hG : Item G_dec G_toVal (decode tG)) (hH : Item H_dec H_toVal (decode tH)) :
+    Item (Loops.codec_tuple8_decode (staticLength tA) A_dec A_into (staticLength tB) B_dec B_into (staticLength tC) C_dec C_into (staticLength tD) D_dec D_into (staticLength tE) E_dec E_into (staticLength tF) F_dec F_into (staticLength tG) G_dec G_into (staticLength tH) H_dec H_into)
+      (fun p => Val.list [A_toVal p.1, B_toVal p.2.1, C_toVal p.2.2.1, D_toVal p.2.2.2.1, E_toVal p.2.2.2.2.1, F_toVal p.2.2.2.2.2.1, G_toVal p.2.2.2.2.2.2.1, H_toVal p.2.2.2.2.2.2.2]) (decode (.tuple [tA, tB, tC, tD, tE, tF, tG, tH])) ∧
+    Loops.codec_tuple8_static_length (staticLength tA) (staticLength tB) (staticLength tC) (staticLength tD) (staticLength tE) (staticLength tF) (staticLength tG) (staticLength tH) = staticLength (.tuple [tA, tB, tC, tD, tE, tF, tG, tH]) :=
+  ⟨tuple8_item tA tB tC tD tE tF tG tH A_dec A_into A_toVal B_dec B_into B_toVal C_dec C_into C_toVal D_dec D_into D_toVal E_dec E_into E_toVal F_dec F_into F_toVal G_dec G_into G_toVal H_dec H_into H_toVal hA hB hC hD hE hF hG hH, tuple8_static_length tA tB tC tD tE tF tG tH⟩
+example : Loops.codec_tuple8_static_length (staticLength .phantom) (staticLength .phantom) (staticLength .phantom) (staticLength .phantom) (staticLength .phantom) (staticLength .phantom) (staticLength .phantom) (staticLength .phantom) = staticLength (.tuple [.phantom, .phantom, .phantom, .phantom, .phantom, .phantom, .phantom, .phantom]) :=
+  (gen_tuple8_decode_eq_model .phantom .phantom .phantom .phantom .phantom .phantom .phantom .phantom Loops.codec_phantom_decode (fun e => ⟨e⟩) (fun _ => Val.unit) Loops.codec_phantom_decode (fun e => ⟨e⟩) (fun _ => Val.unit) Loops.codec_phantom_decode (fun e => ⟨e⟩) (fun _ => Val.unit) Loops.codec_phantom_decode (fun e => ⟨e⟩) (fun _ => Val.unit) Loops.codec_phantom_decode (fun e => ⟨e⟩) (fun _ => Val.unit) Loops.codec_phantom_decode (fun e => ⟨e⟩) (fun _ => Val.unit) Loops.codec_phantom_decode (fun e => ⟨e⟩) (fun _ => Val.unit) Loops.codec_phantom_decode (fun e => ⟨e⟩) (fun _ => Val.unit) phantom_item phantom_item phantom_item phantom_item phantom_item phantom_item phantom_item phantom_item).2
+
+/-- regenerated `encode` of the 8-tuple = the `tuple` case of the hand model's `encode` (reverse declaration order, a component
+    is prefixed by its length iff its `static_length()` is `None`) whenever the component encoders are the model's -/
+theorem gen_tuple8_encode_eq_model {A B C D E F G H : Type} (tA : Ty) (tB : Ty) (tC : Ty) (tD : Ty) (tE : Ty) (tF : Ty) (tG : Ty) (tH : Ty) (A_enc : A → List Nat) (A_toVal : A → Val) (B_enc : B → List Nat) (B_toVal : B → Val) (C_enc : C → List Nat) (C_toVal : C → Val) (D_enc : D → List Nat) (D_toVal : D → Val) (E_enc : E → List Nat) (E_toVal : E → Val) (F_enc : F → List Nat) (F_toVal : F → Val) (G_enc : G → List Nat) (G_toVal : G → Val) (H_enc : H → List Nat) (H_toVal : H → Val)
+    (heA : ∀ x, vals (A_enc x) = encode tA (A_toVal x)) (heB : ∀ x, vals (B_enc x) = encode tB (B_toVal x)) (heC : ∀ x, vals (C_enc x) = encode tC (C_toVal x)) (heD : ∀ x, vals (D_enc x) = encode tD (D_toVal x)) (heE : ∀ x, vals (E_enc x) = encode tE (E_toVal x)) (heF : ∀ x, vals (F_enc x) = encode tF (F_toVal x)) (heG : ∀ x, vals (G_enc x) = encode tG (G_toVal x)) (heH : ∀ x, vals (H_enc x) = encode tH (H_toVal x))
+    (self : (A × B × C × D × E × F × G × H)) (hlA : (A_enc self.1).length < TF.BF.Pn) (hlB : (B_enc self.2.1).length < TF.BF.Pn) (hlC : (C_enc self.2.2.1).length < TF.BF.Pn) (hlD : (D_enc self.2.2.2.1).length < TF.BF.Pn) (hlE : (E_enc self.2.2.2.2.1).length < TF.BF.Pn) (hlF : (F_enc self.2.2.2.2.2.1).length < TF.BF.Pn) (hlG : (G_enc self.2.2.2.2.2.2.1).length < TF.BF.Pn) (hlH : (H_enc self.2.2.2.2.2.2.2).length < TF.BF.Pn) :
+    vals (Loops.codec_tuple8_encode (staticLength tA) A_enc (staticLength tB) B_enc (staticLength tC) C_enc (staticLength tD) D_enc (staticLength tE) E_enc (staticLength tF) F_enc (staticLength tG) G_enc (staticLength tH) H_enc self) =
+      encode (.tuple [tA, tB, tC, tD, tE, tF, tG, tH]) (.list [A_toVal self.1, B_toVal self.2.1, C_toVal self.2.2.1, D_toVal self.2.2.2.1, E_toVal self.2.2.2.2.1, F_toVal self.2.2.2.2.2.1, G_toVal self.2.2.2.2.2.2.1, H_toVal self.2.2.2.2.2.2.2]) :=
+  tuple8_encode tA tB tC tD tE tF tG tH A_enc A_toVal B_enc B_toVal C_enc C_toVal D_enc D_toVal E_enc E_toVal F_enc F_toVal G_enc G_toVal H_enc H_toVal heA heB heC heD heE heF heG heH self hlA hlB hlC hlD hlE hlF hlG hlH
+example : vals (Loops.codec_tuple8_encode (staticLength .phantom) Loops.codec_phantom_encode (staticLength .phantom) Loops.codec_phantom_encode (staticLength .phantom) Loops.codec_phantom_encode (staticLength .phantom) Loops.codec_phantom_encode (staticLength .phantom) Loops.codec_phantom_encode (staticLength .phantom) Loops.codec_phantom_encode (staticLength .phantom) Loops.codec_phantom_encode (staticLength .phantom) Loops.codec_phantom_encode ((), (), (), (), (), (), (), ())) =
+    encode (.tuple [.phantom, .phantom, .phantom, .phantom, .phantom, .phantom, .phantom, .phantom]) (.list [Val.unit, Val.unit, Val.unit, Val.unit, Val.unit, Val.unit, Val.unit, Val.unit]) :=
+  gen_tuple8_encode_eq_model .phantom .phantom .phantom .phantom .phantom .phantom .phantom .phantom Loops.codec_phantom_encode (fun _ => Val.unit) Loops.codec_phantom_encode (fun _ => Val.unit) Loops.codec_phantom_encode (fun _ => Val.unit) Loops.codec_phantom_encode (fun _ => Val.unit) Loops.codec_phantom_encode (fun _ => Val.unit) Loops.codec_phantom_encode (fun _ => Val.unit) Loops.codec_phantom_encode (fun _ => Val.unit) Loops.codec_phantom_encode (fun _ => Val.unit) (fun _ => rfl) (fun _ => rfl) (fun _ => rfl) (fun _ => rfl) (fun _ => rfl) (fun _ => rfl) (fun _ => rfl) (fun _ => rfl) ((), (), (), (), (), (), (), ()) (by decide) (by decide) (by decide) (by decide) (by decide) (by decide) (by decide) (by decide)
+
+/-- **9-tuples**: the regenerated `decode` / `static_length` of `impl_bfield_codec_for_tuple!(A, B, C, D, E, F, G, H, I)` are the `tuple` case of the
+    hand model (components read from the last to the first, `decodeItem` each, nothing may be left) whenever the component
+    decoders are the model's -/
+theorem gen_tuple9_decode_eq_model {A A_Error B B_Error C C_Error D D_Error E E_Error F F_Error G G_Error H H_Error I I_Error : Type} (tA : Ty) (tB : Ty) (tC : Ty) (tD : Ty) (tE : Ty) (tF : Ty) (tG : Ty) (tH : Ty) (tI : Ty)
+    (A_dec : List Nat → Res A_Error A) (A_into : A_Error → DynErr) (A_toVal : A → Val) (B_dec : List Nat → Res B_Error B) (B_into : B_Error → DynErr) (B_toVal : B → Val) (C_dec : List Nat → Res C_Error C) (C_into : C_Error → DynErr) (C_toVal : C → Val) (D_dec : List Nat → Res D_Error D) (D_into : D_Error → DynErr) (D_toVal : D → Val) (E_dec : List Nat → Res E_Error E) (E_into : E_Error → DynErr) (E_toVal : E → Val) (F_dec : List Nat → Res F_Error F) (F_into : F_Error → DynErr) (F_toVal : F → Val) (G_dec : List Nat → Res G_Error G) (G_into : G_Error → DynErr) (G_toVal : G → Val) (H_dec : List Nat → Res H_Error H) (H_into : H_Error → DynErr) (H_toVal : H → Val) (I_dec : List Nat → Res I_Error I) (I_into : I_Error → DynErr) (I_toVal : I → Val)
+    (hA : Item A_dec A_toVal (decode tA)) (hB : Item B_dec B_toVal (decode tB)) (hC : Item C_dec C_toVal (decode tC)) (hD : Item D_dec D_toVal (decode tD)) (hE : Item E_dec E_toVal (decode tE)) (hF : Item F_dec F_toVal (decode tF)) (hG : Item G_dec G_toVal (decode tG)) (hH : Item H_dec H_toVal (decode tH)) (hI : Item I_dec I_toVal (decode tI)) :
+    Item (Loops.codec_tuple9_decode (staticLength tA) A_dec A_into (staticLength tB) B_dec B_into (staticLength tC) C_dec C_into (staticLength tD) D_dec D_into (staticLength tE) E_dec E_into (staticLength tF) F_dec F_into (staticLength tG) G_dec G_into (staticLength tH) H_dec H_into (staticLength tI) I_dec I_into)
+      (fun p => Val.list [A_toVal p.1, B_toVal p.2.1, C_toVal p.2.2.1, D_toVal p.2.2.2.1, E_toVal p.2.2.2.2.1, F_toVal p.2.2.2.2.2.1, G_toVal p.2.2.2.2.2.2.1, H_toVal p.2.2.2.2.2.2.2.1, I_toVal p.2.2.2.2.2.2.2.2]) (decode (.tuple [tA, tB, tC, tD, tE, tF, tG, tH, tI])) ∧
+    Loops.codec_tuple9_static_length (staticLength tA) (staticLength tB) (staticLength tC) (staticLength tD) (staticLength tE) (staticLength tF) (staticLength tG) (staticLength tH) (staticLength tI) = staticLength (.tuple [tA, tB, tC, tD, tE, tF, tG, tH, tI]) :=
+  ⟨tuple9_item tA tB tC tD tE tF tG tH tI A_dec A_into A_toVal B_dec B_into B_toVal C_dec C_into C_toVal D_dec D_into D_toVal E_dec E_into E_toVal F_dec F_into F_toVal G_dec G_into G_toVal H_dec H_into H_toVal I_dec I_into I_toVal hA hB hC hD hE hF hG hH hI, tuple9_static_length tA tB tC tD tE tF tG tH tI⟩
+example : Loops.codec_tuple9_static_length (staticLength .phantom) (staticLength .phantom) (staticLength .phantom) (staticLength .phantom) (staticLength .phantom) (staticLength .phantom) (staticLength .phantom) (staticLength .phantom) (staticLength .phantom) = staticLength (.tuple [.phantom, .phantom, .phantom, .phantom, .phantom, .phantom, .phantom, .phantom, .phantom]) :=
+  (gen_tuple9_decode_eq_model .phantom .phantom .phantom .phantom .phantom .phantom .phantom .phantom .phantom Loops.codec_phantom_decode (fun e => ⟨e⟩) (fun _ => Val.unit) Loops.codec_phantom_decode (fun e => ⟨e⟩) (fun _ => Val.unit) Loops.codec_phantom_decode (fun e => ⟨e⟩) (fun _ => Val.unit) Loops.codec_phantom_decode (fun e => ⟨e⟩) (fun _ => Val.unit) Loops.codec_phantom_decode (fun e => ⟨e⟩) (fun _ => Val.unit) Loops.codec_phantom_decode (fun e => ⟨e⟩) (fun _ => Val.unit) Loops.codec_phantom_decode (fun e => ⟨e⟩) (fun _ => Val.unit) Loops.codec_phantom_decode (fun e => ⟨e⟩) (fun _ => Val.unit) Loops.codec_phantom_decode (fun e => ⟨e⟩) (fun _ => Val.unit) phantom_item phantom_item phantom_item phantom_item phantom_item phantom_item phantom_item phantom_item phantom_item).2
+
+/-- regenerated `encode` of the 9-tuple = the `tuple` case of the hand model's `encode` (reverse declaration order, a component
+    is prefixed by its length iff its `static_length()` is `None`) whenever the component encoders are the model's -/
+theorem gen_tuple9_encode_eq_model {A B C D E F G H I : Type} (tA : Ty) (tB : Ty) (tC : Ty) (tD : Ty) (tE : Ty) (tF : Ty) (tG : Ty) (tH : Ty) (tI : Ty) (A_enc : A → List Nat) (A_toVal : A → Val) (B_enc : B → List Nat) (B_toVal : B → Val) (C_enc : C → List Nat) (C_toVal : C → Val) (D_enc : D → List Nat) (D_toVal : D → Val) (E_enc : E → List Nat) (E_toVal : E → Val) (F_enc : F → List Nat) (F_toVal : F → Val) (G_enc : G → List Nat) (G_toVal : G → Val) (H_enc : H → List Nat) (H_toVal : H → Val) (I_enc : I → List Nat) (I_toVal : I → Val)
+    (heA : ∀ x, vals (A_enc x) = encode tA (A_toVal x)) (heB : ∀ x, vals (B_enc x) = encode tB (B_toVal x)) (heC : ∀ x, vals (C_enc x) = encode tC (C_toVal x)) (heD : ∀ x, vals (D_enc x) = encode tD (D_toVal x)) (heE : ∀ x, vals (E_enc x) = encode tE (E_toVal x)) (heF : ∀ x, vals (F_enc x) = encode tF (F_toVal x)) (heG : ∀ x, vals (G_enc x) = encode tG (G_toVal x)) (heH : ∀ x, vals (H_enc x) = encode tH (H_toVal x)) (heI : ∀ x, vals (I_enc x) = encode tI (I_toVal x))
+    (self : (A × B × C × D × E × F × G × H × I)) (hlA : (A_enc self.1).length < TF.BF.Pn) (hlB : (B_enc self.2.1).length < TF.BF.Pn) (hlC : (C_enc self.2.2.1).length < TF.BF.Pn) (hlD : (D_enc self.2.2.2.1).length < TF.BF.Pn) (hlE : (E_enc self.2.2.2.2.1).length < TF.BF.Pn) (hlF : (F_enc self.2.2.2.2.2.1).length < TF.BF.Pn) (hlG : (G_enc self.2.2.2.2.2.2.1).length < TF.BF.Pn) (hlH : (H_enc self.2.2.2.2.2.2.2.1).length < TF.BF.Pn) (hlI : (I_enc self.2.2.2.2.2.2.2.2).length < TF.BF.Pn) :
+    vals (Loops.codec_tuple9_encode (staticLength tA) A_enc (staticLength tB) B_enc (staticLength tC) C_enc (staticLength tD) D_enc (staticLength tE) E_enc (staticLength tF) F_enc (staticLength tG) G_enc (staticLength tH) H_enc (staticLength tI) I_enc self) =
+      encode (.tuple [tA, tB, tC, tD, tE, tF, tG, tH, tI]) (.list [A_toVal self.1, B_toVal self.2.1, C_toVal self.2.2.1, D_toVal self.2.2.2.1, E_toVal self.2.2.2.2.1, F_toVal self.2.2.2.2.2.1, G_toVal self.2.2.2.2.2.2.1, H_toVal self.2.2.2.2.2.2.2.1, I_toVal self.2.2.2.2.2.2.2.2]) :=
+  tuple9_encode tA tB tC tD tE tF tG tH tI A_enc A_toVal B_enc B_toVal C_enc C_toVal D_enc D_toVal E_enc E_toVal F_enc F_toVal G_enc G_toVal H_enc H_toVal I_enc I_toVal heA heB heC heD heE heF heG heH heI self hlA hlB hlC hlD hlE hlF hlG hlH hlI
+example : vals (Loops.codec_tuple9_encode (staticLength .phantom) Loops.codec_phantom_encode (staticLength .phantom) Loops.codec_phantom_encode (staticLength .phantom) Loops.codec_phantom_encode (staticLength .phantom) Loops.codec_phantom_encode (staticLength .phantom) Loops.codec_phantom_encode (staticLength .phantom) Loops.codec_phantom_encode (staticLength .phantom) Loops.codec_phantom_encode (staticLength .phantom) Loops.codec_phantom_encode (staticLength .phantom) Loops.codec_phantom_encode ((), (), (), (), (), (), (), (), ())) =
+    encode (.tuple [.phantom, .phantom, .phantom, .phantom, .phantom, .phantom, .phantom, .phantom, .phantom]) (.list [Val.unit, Val.unit, Val.unit, Val.unit, Val.unit, Val.unit, Val.unit, Val.unit, Val.unit]) :=
+  gen_tuple9_encode_eq_model .phantom .phantom .phantom .phantom .phantom .phantom .phantom .phantom .phantom Loops.codec_phantom_encode (fun _ => Val.unit) Loops.codec_phantom_encode (fun _ => Val.unit) Loops.codec_phantom_encode (fun _ => Val.unit) Loops.codec_phantom_encode (fun _ => Val.unit) Loops.codec_phantom_encode (fun _ => Val.unit) Loops.codec_phantom_encode (fun _ => Val.unit) Loops.codec_phantom_encode (fun _ => Val.unit) Loops.codec_phantom_encode (fun _ => Val.unit) Loops.codec_phantom_encode (fun _ => Val.unit) (fun _ => rfl) (fun _ => rfl) (fun _ => rfl) (fun _ => rfl) (fun _ => rfl) (fun _ => rfl) (fun _ => rfl) (fun _ => rfl) (fun _ => rfl) ((), (), (), (), (), (), (), (), ()) (by decide) (by decide) (by decide) (by decide) (by decide) (by decide) (by decide) (by decide) (by decide)
+
+/-- **10-tuples**: the regenerated `decode` / `static_length` of `impl_bfield_codec_for_tuple!(A, B, C, D, E, F, G, H, I, J)` are the `tuple` case of the
+    hand model (components read from the last to the first, `decodeItem` each, nothing may be left) whenever the component
+    decoders are the model's -/
+theorem gen_tuple10_decode_eq_model {A A_Error B B_Error C C_Error D D_Error E E_Error F F_Error G G_Error H H_Error I I_Error J J_Error : Type} (tA : Ty) (tB : Ty) (tC : Ty) (tD : Ty) (tE : Ty) (tF : Ty) (tG : Ty) (tH : Ty) (tI : Ty) (tJ : Ty)
+    (A_dec : List Nat → Res A_Error A) (A_into : A_Error → DynErr) (A_toVal : A → Val) (B_dec : List Nat → Res B_Error B) (B_into : B_Error → DynErr) (B_toVal : B → Val) (C_dec : List Nat → Res C_Error C) (C_into : C_Error → DynErr) (C_toVal : C → Val) (D_dec : List Nat → Res D_Error D) (D_into : D_Error → DynErr) (D_toVal : D → Val) (E_dec : List Nat → Res E_Error E) (E_into : E_Error → DynErr) (E_toVal : E → Val) (F_dec : List Nat → Res F_Error F) (F_into : F_Error → DynErr) (F_toVal : F → Val) (G_dec : List Nat → Res G_Error G) (G_into : G_Error → DynErr) (G_toVal : G → Val) (H_dec : List Nat → Res H_Error H) (H_into : H_Error → DynErr) (H_toVal : H → Val) (I_dec : List Nat → Res I_Error I) (I_into : I_Error → DynErr) (I_toVal : I → Val) (J_dec : List Nat → Res J_Error J) (J_into : J_Error → DynErr) (J_toVal : J → Val)
+    (hA : Item A_dec A_toVal (decode tA)) (hB : Item B_dec B_toVal (decode tB)) (hC : Item C_dec C_toVal (decode tC)) (hD : Item D_dec D_toVal (decode tD)) (hE : Item E_dec E_toVal (decode tE)) (hF : Item F_dec F_toVal (decode tF)) (hG : Item G_dec G_toVal (decode tG)) (hH : Item H_dec H_toVal (decode tH)) (hI : Item I_dec I_toVal (decode tI)) (hJ : Item J_dec J_toVal (decode tJ)) :
+    Item (Loops.codec_tuple10_decode (staticLength tA) A_dec A_into (staticLength tB) B_dec B_into (staticLength tC) C_dec C_into (staticLength tD) D_dec D_into (staticLength tE) E_dec E_into (staticLength tF) F_dec F_into (staticLength tG) G_dec G_into (staticLength tH) H_dec H_into (staticLength tI) I_dec I_into (staticLength tJ) J_dec J_into)
+      (fun p => Val.list [A_toVal p.1, B_toVal p.2.1, C_toVal p.2.2.1, D_toVal p.2.2.2.1, E_toVal p.2.2.2.2.1, F_toVal p.2.2.2.2.2.1, G_toVal p.2.2.2.2.2.2.1, H_toVal p.2.2.2.2.2.2.2.1, I_toVal p.2.2.2.2.2.2.2.2.1, J_toVal p.2.2.2.2.2.2.2.2.2]) (decode (.tuple [tA, tB, tC, tD, tE, tF, tG, tH, tI, tJ])) ∧
+    Loops.codec_tuple10_static_length (staticLength tA) (staticLength tB) (staticLength tC) (staticLength tD) (staticLength tE) (staticLength tF) (staticLength tG) (staticLength tH) (staticLength tI) (staticLength tJ) = staticLength (.tuple [tA, tB, tC, tD, tE, tF, tG, tH, tI, tJ]) :=
+  ⟨tuple10_item tA tB tC tD tE tF tG tH tI tJ A_dec A_into A_toVal B_dec B_into B_toVal C_dec C_into C_toVal D_dec D_into D_toVal E_dec E_into E_toVal F_dec F_into F_toVal G_dec G_into G_toVal H_dec H_into H_toVal I_dec I_into I_toVal J_dec J_into J_toVal hA hB hC hD hE hF hG hH hI hJ, tuple10_static_length tA tB tC tD tE tF tG tH tI tJ⟩
+example : Loops.codec_tuple10_static_length (staticLength .phantom) (staticLength .phantom) (staticLength .phantom) (staticLength .phantom) (staticLength .phantom) (staticLength .phantom) (staticLength .phantom) (staticLength .phantom) (staticLength .phantom) (staticLength .phantom) = staticLength (.tuple [.phantom, .phantom, .phantom, .phantom, .phantom, .phantom, .phantom, .phantom, .phantom, .phantom]) :=
+  (gen_tuple10_decode_eq_model .phantom .phantom .phantom .phantom .phantom .phantom .phantom .phantom .phantom .phantom Loops.codec_phantom_decode (fun e => ⟨e⟩) (fun _ => Val.unit) Loops.codec_phantom_decode (fun e => ⟨e⟩) (fun _ => Val.unit) Loops.codec_phantom_decode (fun e => ⟨e⟩) (fun _ => Val.unit) Loops.codec_phantom_decode (fun e => ⟨e⟩) (fun _ => Val.unit) Loops.codec_phantom_decode (fun e => ⟨e⟩) (fun _ => Val.unit) Loops.codec_phantom_decode (fun e => ⟨e⟩) (fun _ => Val.unit) Loops.codec_phantom_decode (fun e => ⟨e⟩) (fun _ => Val.unit) Loops.codec_phantom_decode (fun e => ⟨e⟩) (fun _ => Val.unit) Loops.codec_phantom_decode (fun e => ⟨e⟩) (fun _ => Val.unit) Loops.codec_phantom_decode (fun e => ⟨e⟩) (fun _ => Val.unit) phantom_item phantom_item phantom_item phantom_item phantom_item phantom_item phantom_item phantom_item phantom_item phantom_item).2
+
+/-- regenerated `encode` of the 10-tuple = the `tuple` case of the hand model's `encode` (reverse declaration order, a component
+    is prefixed by its length iff its `static_length()` is `None`) whenever the component encoders are the model's -/
+theorem gen_tuple10_encode_eq_model {A B C D E F G H I J : Type} (tA : Ty) (tB : Ty) (tC : Ty) (tD : Ty) (tE : Ty) (tF : Ty) (tG : Ty) (tH : Ty) (tI : Ty) (tJ : Ty) (A_enc : A → List Nat) (A_toVal : A → Val) (B_enc : B → List Nat) (B_toVal : B → Val) (C_enc : C → List Nat) (C_toVal : C → Val) (D_enc : D → List Nat) (D_toVal : D → Val) (E_enc : E → List Nat) (E_toVal : E → Val) (F_enc : F → List Nat) (F_toVal : F → Val) (G_enc : G → List Nat) (G_toVal : G → Val) (H_enc : H → List Nat) (H_toVal : H → Val) (I_enc : I → List Nat) (I_toVal : I → Val) (J_enc : J → List Nat) (J_toVal : J → Val)
+    (heA : ∀ x, vals (A_enc x) = encode tA (A_toVal x)) (heB : ∀ x, vals (B_enc x) = encode tB (B_toVal x)) (heC : ∀ x, vals (C_enc x) = encode tC (C_toVal x)) (heD : ∀ x, vals (D_enc x) = encode tD (D_toVal x)) (heE : ∀ x, vals (E_enc x) = encode tE (E_toVal x)) (heF : ∀ x, vals (F_enc x) = encode tF (F_toVal x)) (heG : ∀ x, vals (G_enc x) = encode tG (G_toVal x)) (heH : ∀ x, vals (H_enc x) = encode tH (H_toVal x)) (heI : ∀ x, vals (I_enc x) = encode tI (I_toVal x)) (heJ : ∀ x, vals (J_enc x) = encode tJ (J_toVal x))
+    (self : (A × B × C × D × E × F × G × H × I × J)) (hlA : (A_enc self.1).length < TF.BF.Pn) (hlB : (B_enc self.2.1).length < TF.BF.Pn) (hlC : (C_enc self.2.2.1).length < TF.BF.Pn) (hlD : (D_enc self.2.2.2.1).length < TF.BF.Pn) (hlE : (E_enc self.2.2.2.2.1).length < TF.BF.Pn) (hlF : (F_enc self.2.2.2.2.2.1).length < TF.BF.Pn) (hlG : (G_enc self.2.2.2.2.2.2.1).length < TF.BF.Pn) (hlH : (H_enc self.2.2.2.2.2.2.2.1).length < TF.BF.Pn) (hlI : (I_enc self.2.2.2.2.2.2.2.2.1).length < TF.BF.Pn) (hlJ : (J_enc self.2.2.2.2.2.2.2.2.2).length < TF.BF.Pn) :
+    vals (Loops.codec_tuple10_encode (staticLength tA) A_enc (staticLength tB) B_enc (staticLength tC) C_enc (staticLength tD) D_enc (staticLength tE) E_enc (staticLength tF) F_enc (staticLength tG) G_enc (staticLength tH) H_enc (staticLength tI) I_enc (staticLength tJ) J_enc self) =
+      encode (.tuple [tA, tB, tC, tD, tE, tF, tG, tH, tI, tJ]) (.list [A_toVal self.1, B_toVal self.2.1, C_toVal self.2.2.1, D_toVal self.2.2.2.1, E_toVal self.2.2.2.2.1, F_toVal self.2.2.2.2.2.1, G_toVal self.2.2.2.2.2.2.1, H_toVal self.2.2.2.2.2.2.2.1, I_toVal self.2.2.2.2.2.2.2.2.1, J_toVal self.2.2.2.2.2.2.2.2.2]) :=
+  tuple10_encode tA tB tC tD tE tF tG tH tI tJ A_enc A_toVal B_enc B_toVal C_enc C_toVal D_enc D_toVal E_enc E_toVal F_enc F_toVal G_enc G_toVal H_enc H_toVal I_enc I_toVal J_enc J_toVal heA heB heC heD heE heF heG heH heI heJ self hlA hlB hlC hlD hlE hlF hlG hlH hlI hlJ
+example : vals (Loops.codec_tuple10_encode (staticLength .phantom) Loops.codec_phantom_encode (staticLength .phantom) Loops.codec_phantom_encode (staticLength .phantom) Loops.codec_phantom_encode (staticLength .phantom) Loops.codec_phantom_encode (staticLength .phantom) Loops.codec_phantom_encode (staticLength .phantom) Loops.codec_phantom_encode (staticLength .phantom) Loops.codec_phantom_encode (staticLength .phantom) Loops.codec_phantom_encode (staticLength .phantom) Loops.codec_phantom_encode (staticLength .phantom) Loops.codec_phantom_encode ((), (), (), (), (), (), (), (), (), ())) =
+    encode (.tuple [.phantom, .phantom, .phantom, .phantom, .phantom, .phantom, .phantom, .phantom, .phantom, .phantom]) (.list [Val.unit, Val.unit, Val.unit, Val.unit, Val.unit, Val.unit, Val.unit, Val.unit, Val.unit, Val.unit]) :=
+  gen_tuple10_encode_eq_model .phantom .phantom .phantom .phantom .phantom .phantom .phantom .phantom .phantom .phantom Loops.codec_phantom_encode (fun _ => Val.unit) Loops.codec_phantom_encode (fun _ => Val.unit) Loops.codec_phantom_encode (fun _ => Val.unit) Loops.codec_phantom_encode (fun _ => Val.unit) Loops.codec_phantom_encode (fun _ => Val.unit) Loops.codec_phantom_encode (fun _ => Val.unit) Loops.codec_phantom_encode (fun _ => Val.unit) Loops.codec_phantom_encode (fun _ => Val.unit) Loops.codec_phantom_encode (fun _ => Val.unit) Loops.codec_phantom_encode (fun _ => Val.unit) (fun _ => rfl) (fun _ => rfl) (fun _ => rfl) (fun _ => rfl) (fun _ => rfl) (fun _ => rfl) (fun _ => rfl) (fun _ => rfl) (fun _ => rfl) (fun _ => rfl) ((), (), (), (), (), (), (), (), (), ()) (by decide) (by decide) (by decide) (by decide) (by decide) (by decide) (by decide) (by decide) (by decide) (by decide)
+
+/-- **11-tuples**: the regenerated `decode` / `static_length` of `impl_bfield_codec_for_tuple!(A, B, C, D, E, F, G, H, I, J, K)` are the `tuple` case of the
+    hand model (components read from the last to the first, `decodeItem` each, nothing may be left) whenever the component
+    decoders are the model's -/
+theorem gen_tuple11_decode_eq_model {A A_Error B B_Error C C_Error D D_Error E E_Error F F_Error G G_Error H H_Error I I_Error J J_Error K K_Error : Type} (tA : Ty) (tB : Ty) (tC : Ty) (tD : Ty) (tE : Ty) (tF : Ty) (tG : Ty) (tH : Ty) (tI : Ty) (tJ : Ty) (tK : Ty)
+    (A_dec : List Nat → Res A_Error A) (A_into : A_Error → DynErr) (A_toVal : A → Val) (B_dec : List Nat → Res B_Error B) (B_into : B_Error → DynErr) (B_toVal : B → Val) (C_dec : List Nat → Res C_Error C) (C_into : C_Error → DynErr) (C_toVal : C → Val) (D_dec : List Nat → Res D_Error D) (D_into : D_Error → DynErr) (D_toVal : D → Val) (E_dec : List Nat → Res E_Error E) (E_into : E_Error → DynErr) (E_toVal : E → Val) (F_dec : List Nat → Res F_Error F) (F_into : F_Error → DynErr) (F_toVal : F → Val) (G_dec : List Nat → Res G_Error G) (G_into : G_Error → DynErr) (G_toVal : G → Val) (H_dec : List Nat → Res H_Error H) (H_into : H_Error → DynErr) (H_toVal : H → Val) (I_dec : List Nat → Res I_Error I) (I_into : I_Error → DynErr) (I_toVal : I → Val) (J_dec : List Nat → Res J_Error J) (J_into : J_Error → DynErr) (J_toVal : J → Val) (K_dec : List Nat → Res K_Error K) (K_into : K_Error → DynErr) (K_toVal : K → Val)
+    (hA : Item A_dec A_toVal (decode tA)) (hB : Item B_dec B_toVal (decode tB)) (hC : Item C_dec C_toVal (decode tC)) (hD : Item D_dec D_toVal (decode tD)) (hE : Item E_dec E_toVal (decode tE)) (hF : Item F_dec F_toVal (decode tF)) (hG : Item G_dec G_toVal (decode tG)) (hH : Item H_dec H_toVal (decode tH)) (hI : Item I_dec I_toVal (decode tI)) (hJ : Item J_dec J_toVal (decode tJ)) (hK : Item K_dec K_toVal (decode tK)) :
+    Item (Loops.codec_tuple11_decode (staticLength tA) A_dec A_into (staticLength tB) B_dec B_into (staticLength tC) C_dec C_into (staticLength tD) D_dec D_into (staticLength tE) E_dec E_into (staticLength tF) F_dec F_into (staticLength tG) G_dec G_into (staticLength tH) H_dec H_into (staticLength tI) I_dec I_into (staticLength tJ) J_dec J_into (staticLength tK) K_dec K_into)
+      (fun p => Val.list [A_toVal p.1, B_toVal p.2.1, C_toVal p.2.2.1, D_toVal p.2.2.2.1, E_toVal p.2.2.2.2.1, F_toVal p.2.2.2.2.2.1, G_toVal p.2.2.2.2.2.2.1, H_toVal p.2.2.2.2.2.2.2.1, I_toVal p.2.2.2.2.2.2.2.2.1, J_toVal p.2.2.2.2.2.2.2.2.2.1, K_toVal p.2.2.2.2.2.2.2.2.2.2]) (decode (.tuple [tA, tB, tC, tD, tE, tF, tG, tH, tI, tJ, tK])) ∧
+    Loops.codec_tuple11_static_length (staticLength tA) (staticLength tB) (staticLength tC) (staticLength tD) (staticLength tE) (staticLength tF) (staticLength tG) (staticLength tH) (staticLength tI) (staticLength tJ) (staticLength tK) = staticLength (.tuple [tA, tB, tC, tD, tE, tF, tG, tH, tI, tJ, tK]) :=
+  ⟨tuple11_item tA tB tC tD tE tF tG tH tI tJ tK A_dec A_into A_toVal B_dec B_into B_toVal C_dec C_into C_toVal D_dec D_into D_toVal E_dec E_into E_toVal F_dec F_into F_toVal G_dec G_into G_toVal H_dec H_into H_toVal I_dec I_into I_toVal J_dec J_into J_toVal K_dec K_into K_toVal hA hB hC hD hE hF hG hH hI hJ hK, tuple11_static_length tA tB tC tD tE tF tG tH tI tJ tK⟩
+example : Loops.codec_tuple11_static_length (staticLength .phantom) (staticLength .phantom) (staticLength .phantom) (staticLength .phantom) (staticLength .phantom) (staticLength .phantom) (staticLength .phantom) (staticLength .phantom) (staticLength .phantom) (staticLength .phantom) (staticLength .phantom) = staticLength (.tuple [.phantom, .phantom, .phantom, .phantom, .phantom, .phantom, .phantom, .phantom, .phantom, .phantom, .phantom]) :=
+  (gen_tuple11_decode_eq_model .phantom .phantom .phantom .phantom .phantom .phantom .phantom .phantom .phantom .phantom .phantom Loops.codec_phantom_decode (fun e => ⟨e⟩) (fun _ => Val.unit) Loops.codec_phantom_decode (fun e => ⟨e⟩) (fun _ => Val.unit) Loops.codec_phantom_decode (fun e => ⟨e⟩) (fun _ => Val.unit) Loops.codec_phantom_decode (fun e => ⟨e⟩) (fun _ => Val.unit) Loops.codec_phantom_decode (fun e => ⟨e⟩) (fun _ => Val.unit) Loops.codec_phantom_decode (fun e => ⟨e⟩) (fun _ => Val.unit) Loops.codec_phantom_decode (fun e => ⟨e⟩) (fun _ => Val.unit) Loops.codec_phantom_decode (fun e => ⟨e⟩) (fun _ => Val.unit) Loops.codec_phantom_decode (fun e => ⟨e⟩) (fun _ => Val.unit) Loops.codec_phantom_decode (fun e => ⟨e⟩) (fun _ => Val.unit) Loops.codec_phantom_decode (fun e => ⟨e⟩) (fun _ => Val.unit) phantom_item phantom_item phantom_item phantom_item phantom_item phantom_item phantom_item phantom_item phantom_item phantom_item phantom_item).2
+
+/-- regenerated `encode` of the 11-tuple = the `tuple` case of the hand model's `encode` (reverse declaration order, a component
+    is prefixed by its length iff its `static_length()` is `None`) whenever the component encoders are the model's -/
+theorem gen_tuple11_encode_eq_model {A B C D E F G H I J K : Type} (tA : Ty) (tB : Ty) (tC : Ty) (tD : Ty) (tE : Ty) (tF : Ty) (tG : Ty) (tH : Ty) (tI : Ty) (tJ : Ty) (tK : Ty) (A_enc : A → List Nat) (A_toVal : A → Val) (B_enc : B → List Nat) (B_toVal : B → Val) (C_enc : C → List Nat) (C_toVal : C → Val) (D_enc : D → List Nat) (D_toVal : D → Val) (E_enc : E → List Nat) (E_toVal : E → Val) (F_enc : F → List Nat) (F_toVal : F → Val) (G_enc : G → List Nat) (G_toVal : G → Val) (H_enc : H → List Nat) (H_toVal : H → Val) (I_enc : I → List Nat) (I_toVal : I → Val) (J_enc : J → List Nat) (J_toVal : J → Val) (K_enc : K → List Nat) (K_toVal : K → Val)
+    (heA : ∀ x, vals (A_enc x) = encode tA (A_toVal x)) (heB : ∀ x, vals (B_enc x) = encode tB (B_toVal x)) (heC : ∀ x, vals (C_enc x) = encode tC (C_toVal x)) (heD : ∀ x, vals (D_enc x) = encode tD (D_toVal x)) (heE : ∀ x, vals (E_enc x) = encode tE (E_toVal x)) (heF : ∀ x, vals (F_enc x) = encode tF (F_toVal x)) (heG : ∀ x, vals (G_enc x) = encode tG (G_toVal x)) (heH : ∀ x, vals (H_enc x) = encode tH (H_toVal x)) (heI : ∀ x, vals (I_enc x) = encode tI (I_toVal x)) (heJ : ∀ x, vals (J_enc x) = encode tJ (J_toVal x)) (heK : ∀ x, vals (K_enc x) = encode tK (K_toVal x))
+    (self : (A × B × C × D × E × F × G × H × I × J × K)) (hlA : (A_enc self.1).length < TF.BF.Pn) (hlB : (B_enc self.2.1).length < TF.BF.Pn) (hlC : (C_enc self.2.2.1).length < TF.BF.Pn) (hlD : (D_enc self.2.2.2.1).length < TF.BF.Pn) (hlE : (E_enc self.2.2.2.2.1).length < TF.BF.Pn) (hlF : (F_enc self.2.2.2.2.2.1).length < TF.BF.Pn) (hlG : (G_enc self.2.2.2.2.2.2.1).length < TF.BF.Pn) (hlH : (H_enc self.2.2.2.2.2.2.2.1).length < TF.BF.Pn) (hlI : (I_enc self.2.2.2.2.2.2.2.2.1).length < TF.BF.Pn) (hlJ : (J_enc self.2.2.2.2.2.2.2.2.2.1).length < TF.BF.Pn) (hlK : (K_enc self.2.2.2.2.2.2.2.2.2.2).length < TF.BF.Pn) :
+    vals (Loops.codec_tuple11_encode (staticLength tA) A_enc (staticLength tB) B_enc (staticLength tC) C_enc (staticLength tD) D_enc (staticLength tE) E_enc (staticLength tF) F_enc (staticLength tG) G_enc (staticLength tH) H_enc (staticLength tI) I_enc (staticLength tJ) J_enc (staticLength tK) K_enc self) =
+      encode (.tuple [tA, tB, tC, tD, tE, tF, tG, tH, tI, tJ, tK]) (.list [A_toVal self.1, B_toVal self.2.1, C_toVal self.2.2.1, D_toVal self.2.2.2.1, E_toVal self.2.2.2.2.1, F_toVal self.2.2.2.2.2.1, G_toVal self.2.2.2.2.2.2.1, H_toVal self.2.2.2.2.2.2.2.1, I_toVal self.2.2.2.2.2.2.2.2.1, J_toVal self.2.2.2.2.2.2.2.2.2.1, K_toVal self.2.2.2.2.2.2.2.2.2.2]) :=
+  tuple11_encode tA tB tC tD tE tF tG tH tI tJ tK A_enc A_toVal B_enc B_toVal C_enc C_toVal D_enc D_toVal E_enc E_toVal F_enc F_toVal G_enc G_toVal H_enc H_toVal I_enc I_toVal J_enc J_toVal K_enc K_toVal heA heB heC heD heE heF heG heH heI heJ heK self hlA hlB hlC hlD hlE hlF hlG hlH hlI hlJ hlK
+example : vals (Loops.codec_tuple11_encode (staticLength .phantom) Loops.codec_phantom_encode (staticLength .phantom) Loops.codec_phantom_encode (staticLength .phantom) Loops.codec_phantom_encode (staticLength .phantom) Loops.codec_phantom_encode (staticLength .phantom) Loops.codec_phantom_encode (staticLength .phantom) Loops.codec_phantom_encode (staticLength .phantom) Loops.codec_phantom_encode (staticLength .phantom) Loops.codec_phantom_encode (staticLength .phantom) Loops.codec_phantom_encode (staticLength .phantom) Loops.codec_phantom_encode (staticLength .phantom) Loops.codec_phantom_encode ((), (), (), (), (), (), (), (), (), (), ())) =
+    encode (.tuple [.phantom, .phantom, .phantom, .phantom, .phantom, .phantom, .phantom, .phantom, .phantom, .phantom, .phantom]) (.list [Val.unit, Val.unit, Val.unit, Val.unit, Val.unit, Val.unit, Val.unit, Val.unit, Val.unit, Val.unit, Val.unit]) :=
+  gen_tuple11_encode_eq_model .phantom .phantom .phantom .phantom .phantom .phantom .phantom .phantom .phantom .phantom .phantom Loops.codec_phantom_encode (fun _ => Val.unit) Loops.codec_phantom_encode (fun _ => Val.unit) Loops.codec_phantom_encode (fun _ => Val.unit) Loops.codec_phantom_encode (fun _ => Val.unit) Loops.codec_phantom_encode (fun _ => Val.unit) Loops.codec_phantom_encode (fun _ => Val.unit) Loops.codec_phantom_encode (fun _ => Val.unit) Loops.codec_phantom_encode (fun _ => Val.unit) Loops.codec_phantom_encode (fun _ => Val.unit) Loops.codec_phantom_encode (fun _ => Val.unit) Loops.codec_phantom_encode (fun _ => Val.unit) (fun _ => rfl) (fun _ => rfl) (fun _ => rfl) (fun _ => rfl) (fun _ => rfl) (fun _ => rfl) (fun _ => rfl) (fun _ => rfl) (fun _ => rfl) (fun _ => rfl) (fun _ => rfl) ((), (), (), (), (), (), (), (), (), (), ()) (by decide) (by decide) (by decide) (by decide) (by decide) (by decide) (by decide) (by decide) (by decide) (by decide) (by decide)
+
+/-- **12-tuples**: the regenerated `decode` / `static_length` of `impl_bfield_codec_for_tuple!(A, B, C, D, E, F, G, H, I, J, K, L)` are the `tuple` case of the
+    hand model (components read from the last to the first, `decodeItem` each, nothing may be left) whenever the component
+    decoders are the model's -/
+theorem gen_tuple12_decode_eq_model {A A_Error B B_Error C C_Error D D_Error E E_Error F F_Error G G_Error H H_Error I I_Error J J_Error K K_Error L L_Error : Type} (tA : Ty) (tB : Ty) (tC : Ty) (tD : Ty) (tE : Ty) (tF : Ty) (tG : Ty) (tH : Ty) (tI : Ty) (tJ : Ty) (tK : Ty) (tL : Ty)
+    (A_dec : List Nat → Res A_Error A) (A_into : A_Error → DynErr) (A_toVal : A → Val) (B_dec : List Nat → Res B_Error B) (B_into : B_Error → DynErr) (B_toVal : B → Val) (C_dec : List Nat → Res C_Error C) (C_into : C_Error → DynErr) (C_toVal : C → Val) (D_dec : List Nat → Res D_Error D) (D_into : D_Error → DynErr) (D_toVal : D → Val) (E_dec : List Nat → Res E_Error E) (E_into : E_Error → DynErr) (E_toVal : E → Val) (F_dec : List Nat → Res F_Error F) (F_into : F_Error → DynErr) (F_toVal : F → Val) (G_dec : List Nat → Res G_Error G) (G_into : G_Error → DynErr) (G_toVal : G → Val) (H_dec : List Nat → Res H_Error H) (H_into : H_Error → DynErr) (H_toVal : H → Val) (I_dec : List Nat → Res I_Error I) (I_into : I_Error → DynErr) (I_toVal : I → Val) (J_dec : List Nat → Res J_Error J) (J_into : J_Error → DynErr) (J_toVal : J → Val) (K_dec : List Nat → Res K_Error K) (K_into : K_Error → DynErr) (K_toVal : K → Val) (L_dec : List Nat → Res L_Error L) (L_into : L_Error → DynErr) (L_toVal : L → Val)
+    (hA : Item A_dec A_toVal (decode tA)) (hB : Item B_dec B_toVal (decode tB)) (hC : Item C_dec C_toVal (decode tC)) (hD : Item D_dec D_toVal (decode tD)) (hE : Item E_dec E_toVal (decode tE)) (hF : Item F_dec F_toVal (decode tF)) (hG : Item G_dec G_toVal (decode tG)) (hH : Item H_dec H_toVal (decode tH)) (hI : Item I_dec I_toVal (decode tI)) (hJ : Item J_dec J_toVal (decode tJ)) (hK : Item K_dec K_toVal (decode tK)) (hL : Item L_dec L_toVal (decode tL)) :
+    Item (Loops.codec_tuple12_decode (staticLength tA) A_dec A_into (staticLength tB) B_dec B_into (staticLength tC) C_dec C_into (staticLength tD) D_dec D_into (staticLength tE) E_dec E_into (staticLength tF) F_dec F_into (staticLength tG) G_dec G_into (staticLength tH) H_dec H_into (staticLength tI) I_dec I_into (staticLength tJ) J_dec J_into (staticLength tK) K_dec K_into (staticLength tL) L_dec L_into)
+      (fun p => Val.list [A_toVal p.1, B_toVal p.2.1, C_toVal p.2.2.1, D_toVal p.2.2.2.1, E_toVal p.2.2.2.2.1, F_toVal p.2.2.2.2.2.1, G_toVal p.2.2.2.2.2.2.1, H_toVal p.2.2.2.2.2.2.2.1, I_toVal p.2.2.2.2.2.2.2.2.1, J_toVal p.2.2.2.2.2.2.2.2.2.1, K_toVal p.2.2.2.2.2.2.2.2.2.2.1, L_toVal p.2.2.2.2.2.2.2.2.2.2.2]) (decode (.tuple [tA, tB, tC, tD, tE, tF, tG, tH, tI, tJ, tK, tL])) ∧
+    Loops.codec_tuple12_static_length (staticLength tA) (staticLength tB) (staticLength tC) (staticLength tD) (staticLength tE) (staticLength tF) (staticLength tG) (staticLength tH) (staticLength tI) (staticLength tJ) (staticLength tK) (staticLength tL) = staticLength (.tuple [tA, tB, tC, tD, tE, tF, tG, tH, tI, tJ, tK, tL]) :=
+  ⟨tuple12_item tA tB tC tD tE tF tG tH tI tJ tK tL A_dec A_into A_toVal B_dec B_into B_toVal C_dec C_into C_toVal D_dec D_into D_toVal E_dec E_into E_toVal F_dec F_into F_toVal G_dec G_into G_toVal H_dec H_into H_toVal I_dec I_into I_toVal J_dec J_into J_toVal K_dec K_into K_toVal L_dec L_into L_toVal hA hB hC hD hE hF hG hH hI hJ hK hL, tuple12_static_length tA tB tC tD tE tF tG tH tI tJ tK tL⟩
+example : Loops.codec_tuple12_static_length (staticLength .phantom) (staticLength .phantom) (staticLength .phantom) (staticLength .phantom) (staticLength .phantom) (staticLength .phantom) (staticLength .phantom) (staticLength .phantom) (staticLength .phantom) (staticLength .phantom) (staticLength .phantom) (staticLength .phantom) = staticLength (.tuple [.phantom, .phantom, .phantom, .phantom, .phantom, .phantom, .phantom, .phantom, .phantom, .phantom, .phantom, .phantom]) :=
+  (gen_tuple12_decode_eq_model .phantom .phantom .phantom .phantom .phantom .phantom .phantom .phantom .phantom .phantom .phantom .phantom Loops.codec_phantom_decode (fun e => ⟨e⟩) (fun _ => Val.unit) Loops.codec_phantom_decode (fun e => ⟨e⟩) (fun _ => Val.unit) Loops.codec_phantom_decode (fun e => ⟨e⟩) (fun _ => Val.unit) Loops.codec_phantom_decode (fun e => ⟨e⟩) (fun _ => Val.unit) Loops.codec_phantom_decode (fun e => ⟨e⟩) (fun _ => Val.unit) Loops.codec_phantom_decode (fun e => ⟨e⟩) (fun _ => Val.unit) Loops.codec_phantom_decode (fun e => ⟨e⟩) (fun _ => Val.unit) Loops.codec_phantom_decode (fun e => ⟨e⟩) (fun _ => Val.unit) Loops.codec_phantom_decode (fun e => ⟨e⟩) (fun _ => Val.unit) Loops.codec_phantom_decode (fun e => ⟨e⟩) (fun _ => Val.unit) Loops.codec_phantom_decode (fun e => ⟨e⟩) (fun _ => Val.unit) Loops.codec_phantom_decode (fun e => ⟨e⟩) (fun _ => Val.unit) phantom_item phantom_item phantom_item phantom_item phantom_item phantom_item phantom_item phantom_item phantom_item phantom_item phantom_item phantom_item).2
+
+/-- regenerated `encode` of the 12-tuple = the `tuple` case of the hand model's `encode` (reverse declaration order, a component
+    is prefixed by its length iff its `static_length()` is `None`) whenever the component encoders are the model's -/
+theorem gen_tuple12_encode_eq_model {A B C D E F G H I J K L : Type} (tA : Ty) (tB : Ty) (tC : Ty) (tD : Ty) (tE : Ty) (tF : Ty) (tG : Ty) (tH : Ty) (tI : Ty) (tJ : Ty) (tK : Ty) (tL : Ty) (A_enc : A → List Nat) (A_toVal : A → Val) (B_enc : B → List Nat) (B_toVal : B → Val) (C_enc : C → List Nat) (C_toVal : C → Val) (D_enc : D → List Nat) (D_toVal : D → Val) (E_enc : E → List Nat) (E_toVal : E → Val) (F_enc : F → List Nat) (F_toVal : F → Val) (G_enc : G → List Nat) (G_toVal : G → Val) (H_enc : H → List Nat) (H_toVal : H → Val) (I_enc : I → List Nat) (I_toVal : I → Val) (J_enc : J → List Nat) (J_toVal : J → Val) (K_enc : K → List Nat) (K_toVal : K → Val) (L_enc : L → List Nat) (L_toVal : L → Val)
+    (heA : ∀ x, vals (A_enc x) = encode tA (A_toVal x)) (heB : ∀ x, vals (B_enc x) = encode tB (B_toVal x)) (heC : ∀ x, vals (C_enc x) = encode tC (C_toVal x)) (heD : ∀ x, vals (D_enc x) = encode tD (D_toVal x)) (heE : ∀ x, vals (E_enc x) = encode tE (E_toVal x)) (heF : ∀ x, vals (F_enc x) = encode tF (F_toVal x)) (heG : ∀ x, vals (G_enc x) = encode tG (G_toVal x)) (heH : ∀ x, vals (H_enc x) = encode tH (H_toVal x)) (heI : ∀ x, vals (I_enc x) = encode tI (I_toVal x)) (heJ : ∀ x, vals (J_enc x) = encode tJ (J_toVal x)) (heK : ∀ x, vals (K_enc x) = encode tK (K_toVal x)) (heL : ∀ x, vals (L_enc x) = encode tL (L_toVal x))
+    (self : (A × B × C × D × E × F × G × H × I × J × K × L)) (hlA : (A_enc self.1).length < TF.BF.Pn) (hlB : (B_enc self.2.1).length < TF.BF.Pn) (hlC : (C_enc self.2.2.1).length < TF.BF.Pn) (hlD : (D_enc self.2.2.2.1).length < TF.BF.Pn) (hlE : (E_enc self.2.2.2.2.1).length < TF.BF.Pn) (hlF : (F_enc self.2.2.2.2.2.1).length < TF.BF.Pn) (hlG : (G_enc self.2.2.2.2.2.2.1).length < TF.BF.Pn) (hlH : (H_enc self.2.2.2.2.2.2.2.1).length < TF.BF.Pn) (hlI : (I_enc self.2.2.2.2.2.2.2.2.1).length < TF.BF.Pn) (hlJ : (J_enc self.2.2.2.2.2.2.2.2.2.1).length < TF.BF.Pn) (hlK : (K_enc self.2.2.2.2.2.2.2.2.2.2.1).length < TF.BF.Pn) (hlL : (L_enc self.2.2.2.2.2.2.2.2.2.2.2).length < TF.BF.Pn) :
+    vals (Loops.codec_tuple12_encode (staticLength tA) A_enc (staticLength tB) B_enc (staticLength tC) C_enc (staticLength tD) D_enc (staticLength tE) E_enc (staticLength tF) F_enc (staticLength tG) G_enc (staticLength tH) H_enc (staticLength tI) I_enc (staticLength tJ) J_enc (staticLength tK) K_enc (staticLength tL) L_enc self) =
+      encode (.tuple [tA, tB, tC, tD, tE, tF, tG, tH, tI, tJ, tK, tL]) (.list [A_toVal self.1, B_toVal self.2.1, C_toVal self.2.2.1, D_toVal self.2.2.2.1, E_toVal self.2.2.2.2.1, F_toVal self.2.2.2.2.2.1, G_toVal self.2.2.2.2.2.2.1, H_toVal self.2.2.2.2.2.2.2.1, I_toVal self.2.2.2.2.2.2.2.2.1, J_toVal self.2.2.2.2.2.2.2.2.2.1, K_toVal self.2.2.2.2.2.2.2.2.2.2.1, L_toVal self.2.2.2.2.2.2.2.2.2.2.2]) :=
+  tuple12_encode tA tB tC tD tE tF tG tH tI tJ tK tL A_enc A_toVal B_enc B_toVal C_enc C_toVal D_enc D_toVal E_enc E_toVal F_enc F_toVal G_enc G_toVal H_enc H_toVal I_enc I_toVal J_enc J_toVal K_enc K_toVal L_enc L_toVal heA heB heC heD heE heF heG heH heI heJ heK heL self hlA hlB hlC hlD hlE hlF hlG hlH hlI hlJ hlK hlL
+example : vals (Loops.codec_tuple12_encode (staticLength .phantom) Loops.codec_phantom_encode (staticLength .phantom) Loops.codec_phantom_encode (staticLength .phantom) Loops.codec_phantom_encode (staticLength .phantom) Loops.codec_phantom_encode (staticLength .phantom) Loops.codec_phantom_encode (staticLength .phantom) Loops.codec_phantom_encode (staticLength .phantom) Loops.codec_phantom_encode (staticLength .phantom) Loops.codec_phantom_encode (staticLength .phantom) Loops.codec_phantom_encode (staticLength .phantom) Loops.codec_phantom_encode (staticLength .phantom) Loops.codec_phantom_encode (staticLength .phantom) Loops.codec_phantom_encode ((), (), (), (), (), (), (), (), (), (), (), ())) =
+    encode (.tuple [.phantom, .phantom, .phantom, .phantom, .phantom, .phantom, .phantom, .phantom, .phantom, .phantom, .phantom, .phantom]) (.list [Val.unit, Val.unit, Val.unit, Val.unit, Val.unit, Val.unit, Val.unit, Val.unit, Val.unit, Val.unit, Val.unit, Val.unit]) :=
+  gen_tuple12_encode_eq_model .phantom .phantom .phantom .phantom .phantom .phantom .phantom .phantom .phantom .phantom .phantom .phantom Loops.codec_phantom_encode (fun _ => Val.unit) Loops.codec_phantom_encode (fun _ => Val.unit) Loops.codec_phantom_encode (fun _ => Val.unit) Loops.codec_phantom_encode (fun _ => Val.unit) Loops.codec_phantom_encode (fun _ => Val.unit) Loops.codec_phantom_encode (fun _ => Val.unit) Loops.codec_phantom_encode (fun _ => Val.unit) Loops.codec_phantom_encode (fun _ => Val.unit) Loops.codec_phantom_encode (fun _ => Val.unit) Loops.codec_phantom_encode (fun _ => Val.unit) Loops.codec_phantom_encode (fun _ => Val.unit) Loops.codec_phantom_encode (fun _ => Val.unit) (fun _ => rfl) (fun _ => rfl) (fun _ => rfl) (fun _ => rfl) (fun _ => rfl) (fun _ => rfl) (fun _ => rfl) (fun _ => rfl) (fun _ => rfl) (fun _ => rfl) (fun _ => rfl) (fun _ => rfl) ((), (), (), (), (), (), (), (), (), (), (), ()) (by decide) (by decide) (by decide) (by decide) (by decide) (by decide) (by decide) (by decide) (by decide) (by decide) (by decide) (by decide)
+
+/-- **transfer to the regenerated tuple code**: what the regenerated pair decoder accepts re-encodes (model encoder) to the values
+    of the accepted words -- `encode_decode` of the hand model carried over by the bridge; the same holds for every arity and
+    every composite through `gen_combinators_roundtrip_transfer` -/
+theorem gen_tuple_roundtrip_transfer {A A_Error B B_Error : Type} (tA tB : Ty)
+    (A_dec : List Nat → Res A_Error A) (A_into : A_Error → DynErr) (A_toVal : A → Val)
+    (B_dec : List Nat → Res B_Error B) (B_into : B_Error → DynErr) (B_toVal : B → Val)
+    (hA : Item A_dec A_toVal (decode tA)) (hB : Item B_dec B_toVal (decode tB)) (r : List Nat) (hw : Words r) (a : A) (b : B)
+    (hg : Loops.codec_tuple2_decode (staticLength tA) A_dec A_into (staticLength tB) B_dec B_into r = .ok (a, b)) :
+    encode (.tuple [tA, tB]) (.list [A_toVal a, B_toVal b]) = vals r :=
+  gen_combinators_roundtrip_transfer (.tuple [tA, tB]) _ _
+    (gen_tuple2_decode_eq_model tA tB A_dec A_into A_toVal B_dec B_into B_toVal hA hB).1 r hw (a, b) hg
+example : Loops.codec_tuple2_decode (staticLength .phantom) Loops.codec_phantom_decode (fun e => ⟨e⟩)
+    (staticLength .phantom) Loops.codec_phantom_decode (fun e => ⟨e⟩) [] = .ok ((), ()) := rfl
 
 end TF.C03
